@@ -1,6 +1,10 @@
 (* C01, recipe level: the analysis model (Model/Analysis.v) run on the bridged events
    (Model/EventBridge.v) of a document whose projected events are the intended ones returns the
-   denotation of the document (Model/Denote.v), valid, for the class [adoc_ok]. *)
+   denotation of the document (Model/Denote.v), valid, for the class [adoc_ok].
+   The collector is followed event by event ([step_text], [step_igr], [step_cw], [step_tm],
+   [metadata_sim]: one lemma per kind of event, for every mode the document can be in), then item by
+   item ([run_items]) and block by block ([run_blocks]); the state is written out
+   (notation ST: the modes of the document [mode] give the collector's define_mode / duplicate_mode). *)
 From Coq Require Import ZArith Lia.
 From CL Require Import Base.StrLemmas Model.Lexer Model.Parser Model.Printer Model.Denote Model.EventBridge.
 From CL Require Import Proofs.RoundTrip.
@@ -72,14 +76,14 @@ Qed.
 (* ---------------------------------------------------------------- tables *)
 Definition entry_wf (n : nat) (o : A.component) : Prop :=
   match A.c_rel o with
-  | A.RDef rf dis => E.m_ref (A.c_mods o) = false /\ dis = true /\ forallb (fun k => (k <? n)%nat) rf = true
+  | A.RDef rf dis => E.m_ref (A.c_mods o) = false /\ forallb (fun k => (k <? n)%nat) rf = true
   | A.RRef _ _ => E.m_ref (A.c_mods o) = true
   end.
 Definition tbl_wf (tbl : list A.component) : Prop := Forall (entry_wf (length tbl)) tbl.
 
 Lemma entry_wf_mono n m o : (n <= m)%nat -> entry_wf n o -> entry_wf m o.
 Proof.
-  unfold entry_wf. intros L. destruct (A.c_rel o) as [rf dis|]; [|auto]. intros (H1 & H2 & H3). repeat split; auto.
+  unfold entry_wf. intros L. destruct (A.c_rel o) as [rf dis|]; [|auto]. intros (H1 & H3). repeat split; auto.
   eapply forallb_impl; [|exact H3]. intros k Hk. cbv beta in *. apply Nat.ltb_lt in Hk. apply Nat.ltb_lt. lia.
 Qed.
 
@@ -115,37 +119,57 @@ Qed.
 
 Lemma add_comp_length ci inh tbl raw : length (add_comp ci inh tbl raw) = S (length tbl).
 Proof.
-  unfold add_comp. destruct (E.m_ref (A.c_mods raw)); [|rewrite app_length; cbn; lia].
+  unfold add_comp.
   destruct (find_def ci tbl (A.c_name raw)) as [j|]; [|rewrite app_length; cbn; lia].
   destruct (nth_error tbl j); rewrite app_length, ?AnalysisProofs.upd_nth_length; cbn; lia.
 Qed.
 
-Lemma ref_ok_parts ci inh tbl raw :
-  ref_ok ci inh tbl raw = true -> E.m_ref (A.c_mods raw) = true ->
-  exists j def, find_def ci tbl (A.c_name raw) = Some j /\ nth_error tbl j = Some def /\
-    E.m_new (A.c_mods raw) = false /\ A.c_note raw = None /\
-    E.mods_is_empty (E.mods_diff (E.mods_diff (A.c_mods raw) (E.mods_and (A.c_mods def) inh)) E.M_ref_only) = true.
+(* what [find_def] returns is a definition of the table *)
+Lemma find_def_is_def ci tbl name j def :
+  find_def ci tbl name = Some j -> nth_error tbl j = Some def -> is_def def = true.
 Proof.
-  unfold ref_ok. intros H Hr. rewrite Hr in H. apply andb_true_iff in H as [Hn H]. apply negb_true in Hn.
-  destruct (find_def ci tbl (A.c_name raw)) as [j|] eqn:Ef; [|discriminate].
-  destruct (nth_error tbl j) as [def|] eqn:En; [|discriminate]. apply andb_true_iff in H as [Hnote Hc].
-  exists j, def. repeat split; auto. destruct (A.c_note raw); [discriminate|reflexivity].
+  unfold find_def. rewrite last_index_spec. intros Ef En.
+  destruct (A.rposition _ tbl) as [k|] eqn:Ep; [|discriminate]. injection Ef as <-. cbn [Nat.add] in En.
+  apply AnalysisProofs.rposition_some in Ep as (a & Ha & Pa). rewrite Ha in En. injection En as <-.
+  apply andb_true_iff in Pa as [Pa _]. exact Pa.
 Qed.
 
-Lemma add_comp_wf ci inh tbl raw :
-  tbl_wf tbl -> A.c_rel raw = A.RDef [] true -> ref_ok ci inh tbl raw = true -> tbl_wf (add_comp ci inh tbl raw).
+Lemma found_ok_parts ci inh tbl raw u j :
+  found_ok ci inh tbl raw u = true -> find_def ci tbl (A.c_name raw) = Some j ->
+  exists def, nth_error tbl j = Some def /\ link_ok inh raw def = true.
 Proof.
-  intros W Hrel Hok. unfold tbl_wf. rewrite add_comp_length. unfold add_comp.
+  unfold found_ok. intros H Ef. rewrite Ef in H. destruct (nth_error tbl j) as [def|]; [|discriminate]. eauto.
+Qed.
+
+Lemma link_ok_parts inh raw def :
+  link_ok inh raw def = true ->
+  A.c_note raw = None /\
+  E.mods_is_empty (E.mods_diff (E.mods_diff (A.c_mods raw) (E.mods_and (A.c_mods def) inh)) E.M_ref_only) = true /\
+  has_qty def && has_qty raw && negb (def_in_step def) = false.
+Proof.
+  unfold link_ok. intro H. apply andb_true_iff in H as [H Hq]. apply andb_true_iff in H as [Hn Hc].
+  apply negb_true in Hq. repeat split; auto. destruct (A.c_note raw); [discriminate|reflexivity].
+Qed.
+
+Lemma add_comp_wf ci inh tbl raw dis :
+  tbl_wf tbl -> A.c_rel raw = A.RDef [] dis ->
+  (match find_def ci tbl (A.c_name raw) with
+   | Some j => exists def, nth_error tbl j = Some def
+   | None => E.m_ref (A.c_mods raw) = false
+   end) ->
+  tbl_wf (add_comp ci inh tbl raw).
+Proof.
+  intros W Hrel Hf. unfold tbl_wf. rewrite add_comp_length. unfold add_comp.
   assert (Wm : Forall (entry_wf (S (length tbl))) tbl).
   { eapply Forall_impl; [|exact W]. intros a. apply entry_wf_mono. lia. }
-  destruct (E.m_ref (A.c_mods raw)) eqn:Er.
-  - destruct (ref_ok_parts ci inh tbl raw Hok Er) as (j & def & Ef & En & _). rewrite Ef, En.
+  destruct (find_def ci tbl (A.c_name raw)) as [j|] eqn:Ef.
+  - destruct Hf as (def & En). rewrite En.
     apply Forall_app. split.
     + apply Forall_upd_nth; [exact Wm|].
       assert (Hd : entry_wf (length tbl) def).
       { unfold tbl_wf in W. rewrite Forall_forall in W. apply W. eapply nth_error_In. exact En. }
-      unfold add_backlink, entry_wf in *. destruct (A.c_rel def) as [rf dis|] eqn:Erel.
-      * destruct Hd as (H1 & H2 & H3). unfold A.set_rel. cbn [A.c_rel A.c_mods]. repeat split; auto.
+      unfold add_backlink, entry_wf in *. destruct (A.c_rel def) as [rf dis0|] eqn:Erel.
+      * destruct Hd as (H1 & H3). unfold A.set_rel. cbn [A.c_rel A.c_mods]. repeat split; auto.
         rewrite forallb_app. cbn [forallb]. rewrite andb_true_r. apply andb_true_iff. split.
         -- eapply forallb_impl; [|exact H3]. intros k Hk. cbv beta in *. apply Nat.ltb_lt in Hk. apply Nat.ltb_lt. lia.
         -- apply Nat.ltb_lt. lia.
@@ -157,7 +181,7 @@ Proof.
 Qed.
 
 Lemma add_entry_length ci inh tbl e : length (add_entry ci inh tbl e) = S (length tbl).
-Proof. unfold add_entry. destruct (fst e); [rewrite app_length; cbn; lia|apply add_comp_length]. Qed.
+Proof. unfold add_entry. destruct (tag_of e); try (rewrite app_length; cbn; lia); apply add_comp_length. Qed.
 
 Lemma table_length ci inh es : forall tbl, length (table ci inh tbl es) = (length tbl + length es)%nat.
 Proof.
@@ -167,19 +191,51 @@ Qed.
 
 (* the two shapes of an entry: intermediate reference (a REF-modified entry with a Step/Section relation),
    or a fresh entry whose references are still to be resolved *)
-Definition entry_shape (e : bool * A.component) : Prop :=
-  if fst e
-  then match A.c_rel (snd e) with A.RRef _ _ => True | A.RDef _ _ => False end /\ E.m_ref (A.c_mods (snd e)) = true
-  else A.c_rel (snd e) = A.RDef [] true.
+Definition entry_shape (e : entry) : Prop :=
+  if en_inter e
+  then match A.c_rel (en_comp e) with A.RRef _ _ => True | A.RDef _ _ => False end /\ E.m_ref (A.c_mods (en_comp e)) = true
+  else exists dis, A.c_rel (en_comp e) = A.RDef [] dis.
+
+(* the tag of a fresh entry, by cases on what is written and the modes *)
+Lemma tag_cases e :
+  en_inter e = false ->
+  let ms := A.c_mods (en_comp e) in
+  (tag_of e = TDef /\ E.m_new ms = true) \/
+  (tag_of e = TRef /\ E.m_new ms = false /\ E.m_ref ms || in_steps (en_mode e) = true) \/
+  (tag_of e = TDup /\ E.m_new ms = false /\ E.m_ref ms = false /\ in_steps (en_mode e) = false /\ md_dupref (en_mode e) = true) \/
+  (tag_of e = TDef /\ E.m_new ms = false /\ E.m_ref ms = false /\ in_steps (en_mode e) = false /\ md_dupref (en_mode e) = false).
+Proof.
+  intro Hi. cbv zeta. unfold tag_of. rewrite Hi.
+  destruct (E.m_new (A.c_mods (en_comp e))); [left; auto|].
+  destruct (E.m_ref (A.c_mods (en_comp e))); cbn [orb]; [right; left; auto|].
+  destruct (in_steps (en_mode e)); [right; left; auto|].
+  destruct (md_dupref (en_mode e)); [right; right; left; repeat split; auto|right; right; right; repeat split; auto].
+Qed.
 
 Lemma add_entry_wf ci inh tbl e :
   tbl_wf tbl -> entry_shape e -> entry_ok ci inh tbl e = true -> tbl_wf (add_entry ci inh tbl e).
 Proof.
-  unfold add_entry, entry_shape, entry_ok. destruct e as [[|] c]; cbn [fst snd].
-  - intros W [Hr Hm] _. unfold tbl_wf. rewrite app_length. cbn [length]. rewrite Nat.add_1_r. apply Forall_app; split.
+  intros W Hs Hok. unfold entry_shape in Hs. destruct (en_inter e) eqn:Hi.
+  - unfold add_entry, tag_of. rewrite Hi. destruct Hs as [Hr Hm].
+    unfold tbl_wf. rewrite app_length. cbn [length]. rewrite Nat.add_1_r. apply Forall_app; split.
     + eapply Forall_impl; [|exact W]. intros a. apply entry_wf_mono. lia.
-    + constructor; [|constructor]. unfold entry_wf. destruct (A.c_rel c); [contradiction|exact Hm].
-  - intros W Hr Hok. apply add_comp_wf; auto.
+    + constructor; [|constructor]. unfold entry_wf. destruct (A.c_rel (en_comp e)); [contradiction|exact Hm].
+  - destruct Hs as (dis & Hrel).
+    assert (Happ : E.m_ref (A.c_mods (en_comp e)) = false -> tbl_wf (tbl ++ [en_comp e])).
+    { intro Hm. unfold tbl_wf. rewrite app_length. cbn [length]. rewrite Nat.add_1_r. apply Forall_app; split.
+      - eapply Forall_impl; [|exact W]. intros a. apply entry_wf_mono. lia.
+      - constructor; [|constructor]. unfold entry_wf. rewrite Hrel. auto. }
+    unfold entry_ok in Hok. unfold add_entry.
+    destruct (tag_cases e Hi) as [(Ht & Hn)|[(Ht & Hn & Hr)|[(Ht & Hn & Hr & Hst & Hdu)|(Ht & Hn & Hr & Hst & Hdu)]]];
+      cbv zeta in *; rewrite Ht in *.
+    + apply Happ. rewrite Hn in Hok. cbn [andb] in Hok. apply negb_true in Hok. exact Hok.
+    + apply (add_comp_wf ci inh tbl (en_comp e) dis W Hrel). unfold found_ok in Hok.
+      destruct (find_def ci tbl (A.c_name (en_comp e))) as [j|]; [|discriminate].
+      destruct (nth_error tbl j) as [def|]; [eauto|discriminate].
+    + apply (add_comp_wf ci inh tbl (en_comp e) dis W Hrel). unfold found_ok in Hok.
+      destruct (find_def ci tbl (A.c_name (en_comp e))) as [j|]; [|exact Hr].
+      destruct (nth_error tbl j) as [def|]; [eauto|discriminate].
+    + apply Happ. exact Hr.
 Qed.
 
 Lemma to_nat_of_N n : Z.to_nat (Z.of_N n) = N.to_nat n.
@@ -207,23 +263,23 @@ Definition abs_tm (t : timer) : E.p_timer :=
   {| E.pt_span := t_span t; E.pt_name := option_map abstract_text (t_name t);
      E.pt_quantity := option_map abstract_quantity (t_qty t) |}.
 
-(* the entry the collector builds before resolving references (define mode All) *)
-Definition igr_new (ig : E.p_ingredient) : A.component :=
+(* the entry the collector builds before resolving references; [dis]: "defined in a step" *)
+Definition igr_new (dis : bool) (ig : E.p_ingredient) : A.component :=
   let name0 := text_trimmed (E.pi_name ig) in
   let isp := A.is_path_name name0 in
   {| A.c_name := if isp then A.last_segment name0 [] else name0;
      A.c_alias := option_map text_trimmed (E.pi_alias ig);
      A.c_qty := option_map (A.quantity_info true) (E.pi_quantity ig);
      A.c_note := option_map text_trimmed (E.pi_note ig); A.c_rref := isp;
-     A.c_mods := E.pi_mods ig; A.c_rel := A.RDef [] true |}.
-Definition cw_new (cw : E.p_cookware) : A.component :=
+     A.c_mods := E.pi_mods ig; A.c_rel := A.RDef [] dis |}.
+Definition cw_new (dis : bool) (cw : E.p_cookware) : A.component :=
   {| A.c_name := text_trimmed (E.pc_name cw); A.c_alias := option_map text_trimmed (E.pc_alias cw);
      A.c_qty := option_map (A.value_info false) (E.pc_quantity cw);
      A.c_note := option_map text_trimmed (E.pc_note cw); A.c_rref := false;
-     A.c_mods := E.pc_mods cw; A.c_rel := A.RDef [] true |}.
+     A.c_mods := E.pc_mods cw; A.c_rel := A.RDef [] dis |}.
 
-Lemma igr_new_raw i c :
-  cs_kind c = CIgr -> ev_proj (EvIngredient i) = denote_comp c -> igr_new (abs_igr i) = raw_comp c.
+Lemma igr_new_raw m i c :
+  cs_kind c = CIgr -> ev_proj (EvIngredient i) = denote_comp c -> igr_new (negb (in_components m)) (abs_igr i) = raw_comp m c.
 Proof.
   intros Hk H. unfold denote_comp in H. rewrite Hk in H. cbn [ev_proj] in H.
   injection H as Hm Hi Hn Ha Hq Hnt.
@@ -233,8 +289,8 @@ Proof.
   rewrite <- Hq. destruct (i_qty i); cbn [option_map]; [rewrite quantity_info_abstract|]; reflexivity.
 Qed.
 
-Lemma cw_new_raw cw c :
-  cs_kind c = CCw -> ev_proj (EvCookware cw) = denote_comp c -> cw_new (abs_cw cw) = raw_comp c.
+Lemma cw_new_raw m cw c :
+  cs_kind c = CCw -> ev_proj (EvCookware cw) = denote_comp c -> cw_new (negb (in_components m)) (abs_cw cw) = raw_comp m c.
 Proof.
   intros Hk H. unfold denote_comp in H. rewrite Hk in H. cbn [ev_proj] in H.
   injection H as Hm Hn Ha Hq Hnt.
@@ -245,6 +301,18 @@ Proof.
   injection Hq as Hq Hl. rewrite (value_info_abstract v u'). unfold qvproj. cbn [fst snd]. rewrite Hq, Hl. reflexivity.
 Qed.
 
+(* the collector's two mode fields for the modes of the document *)
+Definition dup_of (b : bool) : A.duplicate_mode := if b then A.DupReference else A.DupNew.
+
+Lemma dup_is_ref_of b : A.dup_is_ref (dup_of b) = b.
+Proof. destruct b; reflexivity. Qed.
+Lemma dm_steps m : A.dm_eqb (md_define m) A.DMSteps = in_steps m.
+Proof. unfold in_steps. destruct (md_define m); reflexivity. Qed.
+Lemma dm_components m : A.dm_eqb (md_define m) A.DMComponents = in_components m.
+Proof. unfold in_components. destruct (md_define m); reflexivity. Qed.
+Lemma dm_text m : A.dm_eqb (md_define m) A.DMText = in_text_mode m.
+Proof. unfold in_text_mode. destruct (md_define m); reflexivity. Qed.
+
 Section Sim.
   Variable ci : str -> str.
   Variable yaml_ok : str -> bool.
@@ -253,33 +321,97 @@ Section Sim.
   Variable input : str.
   Variable x : A.aext.
 
-  Lemma resolve_link {T} (s : A.astate) tbl inh new hn ul (K : list A.component -> bool -> outcome T) :
-    A.a_define s = A.DMAll -> A.a_duplicate s = A.DupNew ->
-    tbl_wf tbl -> ref_ok ci inh tbl new = true -> hn = E.is_some (A.c_note new) ->
-    obind (A.resolve_reference ci s tbl inh new) (fun r =>
+  (* resolve_reference on a well-formed occurrence: what it returns, by tag *)
+  Lemma resolve_spec (s : A.astate) tbl inh e :
+    A.a_define s = md_define (en_mode e) -> A.a_duplicate s = dup_of (md_dupref (en_mode e)) ->
+    en_inter e = false -> tbl_wf tbl -> entry_ok ci inh tbl e = true ->
+    (A.resolve_reference ci s tbl inh (en_comp e) = Done {| A.rs_new := en_comp e; A.rs_target := None; A.rs_err := false |} /\
+     add_entry ci inh tbl e = tbl ++ [en_comp e]) \/
+    (exists j def rf dis,
+       find_def ci tbl (A.c_name (en_comp e)) = Some j /\ nth_error tbl j = Some def /\ link_ok inh (en_comp e) def = true /\
+       A.c_rel def = A.RDef rf dis /\ forallb (fun k => (k <? length tbl)%nat) rf = true /\
+       A.resolve_reference ci s tbl inh (en_comp e)
+       = Done {| A.rs_new := as_reference inh (en_comp e) def j;
+                 A.rs_target := Some (j, negb (E.m_ref (A.c_mods (en_comp e)))); A.rs_err := false |} /\
+       add_entry ci inh tbl e = A.upd_nth tbl j (add_backlink def (length tbl)) ++ [as_reference inh (en_comp e) def j] /\
+       (tag_of e = TRef \/ tag_of e = TDup)).
+  Proof.
+    intros Hd Hu Hi W Hok. unfold A.resolve_reference. rewrite Hd, Hu, dm_steps, dup_is_ref_of, (same_name_find ci tbl _ W).
+    set (new := en_comp e) in *.
+    assert (Hfound : forall j u, found_ok ci inh tbl new u = true -> find_def ci tbl (A.c_name new) = Some j ->
+              E.m_new (A.c_mods new) = false ->
+              E.m_ref (A.c_mods new) || in_steps (en_mode e) || md_dupref (en_mode e) && true = true ->
+              add_entry ci inh tbl e = add_comp ci inh tbl new ->
+              exists def rf dis,
+                nth_error tbl j = Some def /\ link_ok inh new def = true /\
+                A.c_rel def = A.RDef rf dis /\ forallb (fun k => (k <? length tbl)%nat) rf = true /\
+                (if E.m_new (A.c_mods new) && E.m_ref (A.c_mods new)
+                 then Done {| A.rs_new := new; A.rs_target := None; A.rs_err := true |}
+                 else if E.m_new (A.c_mods new) then Done {| A.rs_new := new; A.rs_target := None; A.rs_err := false |}
+                 else if negb (E.m_ref (A.c_mods new) || in_steps (en_mode e) || md_dupref (en_mode e) && E.is_some (Some j))
+                 then Done {| A.rs_new := new; A.rs_target := None; A.rs_err := false |}
+                 else match nth_error tbl j with
+                      | None => Panic A.site_index_definition
+                      | Some referenced =>
+                          if E.m_ref (A.c_mods referenced) then Panic A.site_assert_target_not_ref else
+                          Done {| A.rs_new := A.set_mods_rel new (E.mods_or (E.mods_or (A.c_mods new) (E.mods_and (A.c_mods referenced) inh)) E.M_ref_only)
+                                               (A.RRef j A.TgComponent);
+                                  A.rs_target := Some (j, negb (E.m_ref (A.c_mods new)));
+                                  A.rs_err := negb (E.mods_is_empty (E.mods_diff (E.mods_diff (A.c_mods new) (E.mods_and (A.c_mods referenced) inh)) E.M_ref_only)) |}
+                      end)
+                = Done {| A.rs_new := as_reference inh new def j; A.rs_target := Some (j, negb (E.m_ref (A.c_mods new))); A.rs_err := false |} /\
+                add_entry ci inh tbl e = A.upd_nth tbl j (add_backlink def (length tbl)) ++ [as_reference inh new def j]).
+    { intros j u Hf Ef Hn Htreat Hadd. destruct (found_ok_parts ci inh tbl new u j Hf Ef) as (def & En & Hl).
+      destruct (link_ok_parts inh new def Hl) as (_ & Hc & _).
+      pose proof (find_def_is_def ci tbl _ j def Ef En) as Hdef.
+      assert (Hw : entry_wf (length tbl) def).
+      { unfold tbl_wf in W. rewrite Forall_forall in W. apply W. eapply nth_error_In. exact En. }
+      unfold is_def in Hdef. unfold entry_wf in Hw. destruct (A.c_rel def) as [rf dis|] eqn:Erel; [|discriminate].
+      destruct Hw as (Hmr & Hrf). exists def, rf, dis. repeat split; auto.
+      - rewrite Hn. cbn [andb E.is_some] in Htreat |- *. rewrite Htreat. cbn [negb]. rewrite En, Hmr, Hc. reflexivity.
+      - rewrite Hadd. unfold add_comp. rewrite Ef, En. reflexivity. }
+    unfold entry_ok in Hok. unfold add_entry at 1.
+    destruct (tag_cases e Hi) as [(Ht & Hn)|[(Ht & Hn & Hr)|[(Ht & Hn & Hr & Hst & Hdu)|(Ht & Hn & Hr & Hst & Hdu)]]];
+      cbv zeta in *; fold new in Hn, Hok |- *; try fold new in Hr; rewrite Ht in Hok.
+    - left. rewrite Ht. rewrite Hn in Hok |- *. cbn [andb] in Hok |- *. apply negb_true in Hok. rewrite Hok. auto.
+    - right. pose proof Hok as Hok'. unfold found_ok in Hok'.
+      destruct (find_def ci tbl (A.c_name new)) as [j|] eqn:Ef; [|discriminate]. clear Hok'.
+      assert (Hadd : add_entry ci inh tbl e = add_comp ci inh tbl new) by (unfold add_entry; rewrite Ht; reflexivity).
+      assert (Htreat : E.m_ref (A.c_mods new) || in_steps (en_mode e) || md_dupref (en_mode e) && true = true) by (rewrite Hr; reflexivity).
+      destruct (Hfound j false Hok eq_refl Hn Htreat Hadd) as (def & rf & dis & H1 & H2 & H3 & H4 & H5 & H6).
+      exists j, def, rf, dis. repeat split; auto.
+    - pose proof Hok as Hok'. unfold found_ok in Hok'.
+      destruct (find_def ci tbl (A.c_name new)) as [j|] eqn:Ef.
+      + right. clear Hok'.
+        assert (Hadd : add_entry ci inh tbl e = add_comp ci inh tbl new) by (unfold add_entry; rewrite Ht; reflexivity).
+        assert (Htreat : E.m_ref (A.c_mods new) || in_steps (en_mode e) || md_dupref (en_mode e) && true = true) by (rewrite Hdu, orb_true_r; reflexivity).
+        destruct (Hfound j true Hok eq_refl Hn Htreat Hadd) as (def & rf & dis & H1 & H2 & H3 & H4 & H5 & H6).
+        exists j, def, rf, dis. repeat split; auto.
+      + left. rewrite Ht, Hn, Hr, Hst, Hdu. cbn [andb orb negb E.is_some]. split; [reflexivity|].
+        unfold add_comp. rewrite Ef. reflexivity.
+    - left. rewrite Ht, Hn, Hr, Hst, Hdu. cbn [andb orb negb]. auto.
+  Qed.
+
+  Lemma resolve_link {T} (s : A.astate) tbl inh e hn ul (K : list A.component -> bool -> outcome T) :
+    A.a_define s = md_define (en_mode e) -> A.a_duplicate s = dup_of (md_dupref (en_mode e)) ->
+    en_inter e = false -> tbl_wf tbl -> entry_ok ci inh tbl e = true -> hn = E.is_some (A.c_note (en_comp e)) ->
+    obind (A.resolve_reference ci s tbl inh (en_comp e)) (fun r =>
       match A.rs_target r with
       | Some (j, _) =>
           obind (A.link_reference tbl (A.rs_new r) j hn ul) (fun te =>
             let (tbl', e) := te in K (tbl' ++ [A.rs_new r]) (A.rs_err r || e))
       | None => K (tbl ++ [A.rs_new r]) (A.rs_err r)
-      end) = K (add_comp ci inh tbl new) false.
+      end) = K (add_entry ci inh tbl e) false.
   Proof.
-    intros Hd Hu W Hok Hhn. unfold A.resolve_reference, add_comp. rewrite Hd, Hu.
-    destruct (E.m_ref (A.c_mods new)) eqn:Er.
-    - destruct (ref_ok_parts ci inh tbl new Hok Er) as (j & def & Ef & En & Hnew & Hnote & Hc).
-      rewrite Hnew. cbn [andb orb negb]. rewrite (same_name_find ci tbl _ W), Ef, En.
-      assert (Hdef : is_def def = true).
-      { unfold find_def in Ef. rewrite last_index_spec in Ef.
-        destruct (A.rposition _ tbl) as [k|] eqn:Ep; [|discriminate]. injection Ef as <-. cbn [Nat.add] in En.
-        apply AnalysisProofs.rposition_some in Ep as (a & Ha & Pa). rewrite Ha in En. injection En as <-.
-        apply andb_true_iff in Pa as [Pa _]. exact Pa. }
-      assert (Hw : entry_wf (length tbl) def).
-      { unfold tbl_wf in W. rewrite Forall_forall in W. apply W. eapply nth_error_In. exact En. }
-      unfold is_def in Hdef. unfold entry_wf in Hw. destruct (A.c_rel def) as [rf dis|] eqn:Erel; [|discriminate].
-      destruct Hw as (Hmr & -> & Hrf). rewrite Hmr, Hc. cbn [A.rs_target A.rs_new A.rs_err negb obind].
-      unfold A.link_reference. rewrite En, Erel, Hrf. cbn [negb andb]. rewrite !andb_false_r.
-      rewrite Hhn, Hnote. cbn [E.is_some orb obind]. unfold add_backlink. rewrite Erel. reflexivity.
-    - rewrite andb_false_r. cbn [orb andb negb]. destruct (E.m_new (A.c_mods new)); reflexivity.
+    intros Hd Hu Hi W Hok Hhn.
+    destruct (resolve_spec s tbl inh e Hd Hu Hi W Hok) as [(Hr & Ha)|(j & def & rf & dis & Ef & En & Hl & Erel & Hrf & Hr & Ha & _)];
+      rewrite Hr, Ha; cbn [obind A.rs_target A.rs_new A.rs_err]; [reflexivity|].
+    destruct (link_ok_parts inh _ def Hl) as (Hnote & _ & Hq).
+    unfold A.link_reference. rewrite En, Erel, Hrf. cbn [negb andb]. rewrite !andb_false_r.
+    rewrite Hhn, Hnote. cbn [E.is_some orb obind].
+    change (A.c_qty (as_reference inh (en_comp e) def j)) with (A.c_qty (en_comp e)).
+    unfold has_qty, def_in_step in Hq. rewrite Erel in Hq. rewrite Hq. cbn [obind orb].
+    unfold add_backlink. rewrite Erel. reflexivity.
   Qed.
 
   Definition igr_cont (s : A.astate) (ig : E.p_ingredient) (r : A.resolved) : outcome (A.astate * nat) :=
@@ -292,46 +424,49 @@ Section Sim.
     | None => Done (A.add_error (A.set_ingredients s (tbl ++ [A.rs_new r])) (A.rs_err r), length tbl)
     end.
 
-  Lemma ingredient_unfold s ig :
-    A.a_define s = A.DMAll -> E.pi_inter ig = None ->
-    A.ingredient ci x s ig = obind (A.resolve_reference ci s (A.a_ingredients s) A.inherit_ingredient (igr_new ig)) (igr_cont s ig).
-  Proof. intros Hd Hi. unfold A.ingredient, igr_new, igr_cont. rewrite Hd, Hi. reflexivity. Qed.
+  Definition dis_of (s : A.astate) : bool := negb (A.dm_eqb (A.a_define s) A.DMComponents).
 
-  Lemma ingredient_sim s ig :
-    A.a_define s = A.DMAll -> A.a_duplicate s = A.DupNew -> E.pi_inter ig = None ->
-    tbl_wf (A.a_ingredients s) -> ref_ok ci inherit_igr (A.a_ingredients s) (igr_new ig) = true ->
+  Lemma ingredient_unfold s ig :
+    E.pi_inter ig = None ->
+    A.ingredient ci x s ig = obind (A.resolve_reference ci s (A.a_ingredients s) A.inherit_ingredient (igr_new (dis_of s) ig)) (igr_cont s ig).
+  Proof. intros Hi. unfold A.ingredient, igr_new, igr_cont, dis_of. rewrite Hi. reflexivity. Qed.
+
+  Lemma ingredient_sim s ig e :
+    A.a_define s = md_define (en_mode e) -> A.a_duplicate s = dup_of (md_dupref (en_mode e)) ->
+    E.pi_inter ig = None -> en_inter e = false -> en_comp e = igr_new (dis_of s) ig ->
+    tbl_wf (A.a_ingredients s) -> entry_ok ci inherit_igr (A.a_ingredients s) e = true ->
     A.ingredient ci x s ig
-    = Done (A.add_error (A.set_ingredients s (add_comp ci inherit_igr (A.a_ingredients s) (igr_new ig))) false,
+    = Done (A.add_error (A.set_ingredients s (add_entry ci inherit_igr (A.a_ingredients s) e)) false,
             length (A.a_ingredients s)).
   Proof.
-    intros Hd Hu Hi W Hok. rewrite (ingredient_unfold s ig Hd Hi). unfold igr_cont.
-    apply (resolve_link s (A.a_ingredients s) A.inherit_ingredient (igr_new ig) (E.is_some (E.pi_note ig)) (A.x_advanced x)
-             (fun t e => Done (A.add_error (A.set_ingredients s t) e, length (A.a_ingredients s))) Hd Hu W Hok).
-    unfold igr_new. cbn [A.c_note]. rewrite is_some_map. reflexivity.
+    intros Hd Hu Hi Hei Hec W Hok. rewrite (ingredient_unfold s ig Hi), <- Hec. unfold igr_cont.
+    apply (resolve_link s (A.a_ingredients s) A.inherit_ingredient e (E.is_some (E.pi_note ig)) (A.x_advanced x)
+             (fun t er => Done (A.add_error (A.set_ingredients s t) er, length (A.a_ingredients s))) Hd Hu Hei W Hok).
+    rewrite Hec. unfold igr_new. cbn [A.c_note]. rewrite is_some_map. reflexivity.
   Qed.
 
   Lemma ingredient_unfold_inter s ig d :
-    A.a_define s = A.DMAll -> E.pi_inter ig = Some d ->
+    E.pi_inter ig = Some d ->
     A.ingredient ci x s ig
-    = if negb (E.m_ref (A.c_mods (igr_new ig))) then Panic A.site_inter_without_ref else
+    = if negb (E.m_ref (A.c_mods (igr_new (dis_of s) ig))) then Panic A.site_inter_without_ref else
       obind (A.resolve_intermediate_ref s d) (fun r =>
         let (new', e2) := match r with
-                          | Some rel => (A.set_rel (igr_new ig) rel, false)
-                          | None => (igr_new ig, true)
+                          | Some rel => (A.set_rel (igr_new (dis_of s) ig) rel, false)
+                          | None => (igr_new (dis_of s) ig, true)
                           end in
         Done (A.add_error (A.set_ingredients s (A.a_ingredients s ++ [new']))
-                (E.mods_intersects (A.c_mods (igr_new ig)) A.inter_invalid || e2), length (A.a_ingredients s))).
-  Proof. intros Hd Hi. unfold A.ingredient, igr_new. rewrite Hd, Hi. reflexivity. Qed.
+                (E.mods_intersects (A.c_mods (igr_new (dis_of s) ig)) A.inter_invalid || e2), length (A.a_ingredients s))).
+  Proof. intros Hi. unfold A.ingredient, igr_new, dis_of. rewrite Hi. reflexivity. Qed.
 
   Lemma ingredient_inter_sim s ig d rel :
-    A.a_define s = A.DMAll -> E.pi_inter ig = Some d ->
-    E.m_ref (A.c_mods (igr_new ig)) = true -> E.mods_intersects (A.c_mods (igr_new ig)) A.inter_invalid = false ->
+    E.pi_inter ig = Some d ->
+    E.m_ref (A.c_mods (igr_new (dis_of s) ig)) = true -> E.mods_intersects (A.c_mods (igr_new (dis_of s) ig)) A.inter_invalid = false ->
     A.resolve_intermediate_ref s d = Done (Some rel) ->
     A.ingredient ci x s ig
-    = Done (A.add_error (A.set_ingredients s (A.a_ingredients s ++ [A.set_rel (igr_new ig) rel])) false,
+    = Done (A.add_error (A.set_ingredients s (A.a_ingredients s ++ [A.set_rel (igr_new (dis_of s) ig) rel])) false,
             length (A.a_ingredients s)).
   Proof.
-    intros Hd Hi Hm He Hr. rewrite (ingredient_unfold_inter s ig d Hd Hi), Hm, Hr. cbn [negb obind]. rewrite He. reflexivity.
+    intros Hi Hm He Hr. rewrite (ingredient_unfold_inter s ig d Hi), Hm, Hr. cbn [negb obind]. rewrite He. reflexivity.
   Qed.
 
   Lemma resolve_inter_sim s idata k :
@@ -350,15 +485,16 @@ Section Sim.
     - destruct (nth_error (positions 0 (map A.is_step (A.sec_content (A.a_cur s)))) v1); reflexivity.
   Qed.
 
-  Lemma cookware_sim s cw :
-    A.a_define s = A.DMAll -> A.a_duplicate s = A.DupNew ->
-    tbl_wf (A.a_cookware s) -> ref_ok ci inherit_cw (A.a_cookware s) (cw_new cw) = true ->
+  Lemma cookware_sim s cw e :
+    A.a_define s = md_define (en_mode e) -> A.a_duplicate s = dup_of (md_dupref (en_mode e)) ->
+    en_inter e = false -> en_comp e = cw_new (dis_of s) cw ->
+    tbl_wf (A.a_cookware s) -> entry_ok ci inherit_cw (A.a_cookware s) e = true ->
     A.cookware ci s cw
-    = Done (A.add_error (A.set_cookware s (add_comp ci inherit_cw (A.a_cookware s) (cw_new cw))) false,
+    = Done (A.add_error (A.set_cookware s (add_entry ci inherit_cw (A.a_cookware s) e)) false,
             length (A.a_cookware s)).
   Proof.
-    intros Hd Hu W Hok.
-    transitivity (obind (A.resolve_reference ci s (A.a_cookware s) A.inherit_cookware (cw_new cw)) (fun r =>
+    intros Hd Hu Hei Hec W Hok.
+    transitivity (obind (A.resolve_reference ci s (A.a_cookware s) A.inherit_cookware (cw_new (dis_of s) cw)) (fun r =>
       match A.rs_target r with
       | Some (j, _) =>
           obind (A.link_reference (A.a_cookware s) (A.rs_new r) j (E.is_some (E.pc_note cw)) false) (fun te =>
@@ -366,10 +502,11 @@ Section Sim.
             Done (A.add_error (A.set_cookware s (tbl' ++ [A.rs_new r])) (A.rs_err r || e), length (A.a_cookware s)))
       | None => Done (A.add_error (A.set_cookware s (A.a_cookware s ++ [A.rs_new r])) (A.rs_err r), length (A.a_cookware s))
       end)).
-    { unfold A.cookware, cw_new. rewrite Hd. reflexivity. }
-    apply (resolve_link s (A.a_cookware s) A.inherit_cookware (cw_new cw) (E.is_some (E.pc_note cw)) false
-             (fun t e => Done (A.add_error (A.set_cookware s t) e, length (A.a_cookware s))) Hd Hu W Hok).
-    unfold cw_new. cbn [A.c_note]. rewrite is_some_map. reflexivity.
+    { unfold A.cookware, cw_new, dis_of. reflexivity. }
+    rewrite <- Hec.
+    apply (resolve_link s (A.a_cookware s) A.inherit_cookware e (E.is_some (E.pc_note cw)) false
+             (fun t er => Done (A.add_error (A.set_cookware s t) er, length (A.a_cookware s))) Hd Hu Hei W Hok).
+    rewrite Hec. unfold cw_new. cbn [A.c_note]. rewrite is_some_map. reflexivity.
   Qed.
 End Sim.
 
@@ -392,6 +529,51 @@ Lemma step_items_comp fi inl c r k :
   step_items fi inl (IComp c :: r) k
   = (fst (comp_item c k) :: fst (step_items fi inl r (snd (comp_item c k))), snd (step_items fi inl r (snd (comp_item c k)))).
 Proof. cbn [step_items]. destruct (comp_item c k) as [it k1]. cbn [fst snd]. destruct (step_items fi inl r k1); reflexivity. Qed.
+
+(* the items a step block accumulates: in components mode ([cm]) its text pieces are skipped *)
+Fixpoint mitems (fi : str -> option (str * str)) (inl cm : bool) (l : list item) (k : cnt) : list A.item * cnt :=
+  match l with
+  | [] => ([], k)
+  | IText t :: r =>
+      if cm then mitems fi inl cm r k
+      else let ti := text_items fi inl (toks_text t) (n_q k) in
+           let rr := mitems fi inl cm r {| n_i := n_i k; n_c := n_c k; n_t := n_t k; n_q := snd ti |} in
+           (fst ti ++ fst rr, snd rr)
+  | IComp c :: r =>
+      let rr := mitems fi inl cm r (snd (comp_item c k)) in (fst (comp_item c k) :: fst rr, snd rr)
+  end.
+
+Lemma mitems_step fi inl l : forall k, mitems fi inl false l k = step_items fi inl l k.
+Proof.
+  induction l as [|[t|c] r IH]; intro k; [reflexivity| |].
+  - rewrite step_items_text. cbn [mitems]. rewrite IH. reflexivity.
+  - rewrite step_items_comp. cbn [mitems]. rewrite IH. reflexivity.
+Qed.
+
+Lemma mitems_comps fi inl l : forall k, snd (mitems fi inl true l k) = comps_cnt l k.
+Proof.
+  unfold comps_cnt. induction l as [|[t|c] r IH]; intro k; [reflexivity| |].
+  - cbn [mitems item_comps flat_map app]. apply IH.
+  - cbn [mitems item_comps flat_map app fold_left snd]. apply IH.
+Qed.
+
+Lemma mitems_counts fi inl cm l : forall k,
+  n_i (snd (mitems fi inl cm l k)) = (n_i k + length (filter is_igr (item_comps l)))%nat /\
+  n_c (snd (mitems fi inl cm l k)) = (n_c k + length (filter is_cw (item_comps l)))%nat /\
+  n_t (snd (mitems fi inl cm l k)) = (n_t k + length (filter is_tm (item_comps l)))%nat /\
+  (cm = true -> n_q (snd (mitems fi inl cm l k)) = n_q k).
+Proof.
+  induction l as [|[t|c] r IH]; intro k.
+  - cbn. repeat split; lia.
+  - cbn [mitems item_comps flat_map app]. fold (item_comps r). destruct cm.
+    + apply IH.
+    + cbn [snd]. destruct (IH {| n_i := n_i k; n_c := n_c k; n_t := n_t k;
+                                 n_q := snd (text_items fi inl (toks_text t) (n_q k)) |}) as (H1 & H2 & H3 & _).
+      cbn [n_i n_c n_t] in H1, H2, H3. repeat split; auto. discriminate.
+  - cbn [mitems snd]. destruct (IH (snd (comp_item c k))) as (H1 & H2 & H3 & H4).
+    cbn [item_comps flat_map app filter]. fold (item_comps r). rewrite H1, H2, H3.
+    unfold comp_item, is_igr, is_cw, is_tm in *. destruct (cs_kind c); cbn [snd n_i n_c n_t n_q length] in *; repeat split; try lia; exact H4.
+Qed.
 
 (* the inline-quantity loop of in_step is [iq_split] *)
 Lemma split_iq_spec fi fuel : forall hay n its n' acc,
@@ -424,6 +606,16 @@ Proof.
     + injection H as <- _. destruct hay; [contradiction|discriminate].
 Qed.
 
+(* a `>>` entry as the collector reads it and as the document says it ([config_of]) *)
+Lemma bracketed_split k :
+  (match k with c :: _ => c =? 91 | [] => false end) && (match rev k with c :: _ => c =? 93 | [] => false end) = bracketed k.
+Proof.
+  unfold bracketed. destruct k as [|c r]; [reflexivity|]. destruct (rev (c :: r)) as [|e0 r0]; [apply andb_false_r|reflexivity].
+Qed.
+
+Lemma one_of_2 s a b : one_of s [a; b] = str_eqb s a || str_eqb s b.
+Proof. unfold one_of. cbn [existsb]. rewrite orb_false_r. reflexivity. Qed.
+
 Section Run.
   Variable ci : str -> str.
   Variable yaml_ok : str -> bool.
@@ -434,8 +626,8 @@ Section Run.
 
   Local Notation stepF := (A.step ci yaml_ok find_iq unit_class input x A.cfgF).
   Local Notation runF := (A.run ci yaml_ok find_iq unit_class input x A.cfgF).
-  Local Notation ST secs cur igs cws tms inl blk cnt err :=
-    (A.Build_astate secs cur igs cws tms inl A.DMAll A.DupNew blk cnt err false).
+  Local Notation ST m secs cur igs cws tms inl blk cnt err :=
+    (A.Build_astate secs cur igs cws tms inl (md_define m) (dup_of (md_dupref m)) blk cnt err false).
 
   Lemma run_app a : forall s b, runF s (a ++ b) = obind (runF s a) (fun s' => runF s' b).
   Proof.
@@ -443,10 +635,45 @@ Section Run.
     destruct (stepF s e) as [s1|p]; cbn [obind]; [apply IH|reflexivity].
   Qed.
 
-  Lemma timer_sim secs cur igs cws tms inl blk cnt err t c :
+  (* a mode switch: the collector's metadata function follows [next_mode] *)
+  Lemma metadata_sim m secs cur igs cws tms inl blk cnt err tk tv key v :
+    text_trimmed tk = clean (toks_text key) -> text_outer_trimmed tv = trim (toks_text v) ->
+    config_ok x (BkMeta key v) = true ->
+    A.metadata x (ST m secs cur igs cws tms inl blk cnt err) (abstract_text tk) (abstract_text tv)
+    = ST (next_mode (A.x_modes x) m (BkMeta key v)) secs cur igs cws tms inl blk cnt err.
+  Proof.
+    intros Hk Hv Hok. unfold A.metadata, next_mode, config_ok in *. rewrite trimmed_abstract, outer_trimmed_abstract, Hk, Hv.
+    rewrite <- andb_assoc, bracketed_split. cbn [block_config] in *.
+    destruct (A.x_modes x); cbn [negb orb andb] in *; [|reflexivity].
+    unfold config_of in *. destruct (bracketed (clean (toks_text key))); [|reflexivity].
+    change A.s_define with w_define. change A.s_mode with w_mode. change A.s_duplicate with w_duplicate.
+    change A.s_all with w_all. change A.s_default with w_default. change A.s_components with w_components.
+    change A.s_ingredients with w_ingredients. change A.s_steps with w_steps. change A.s_text with w_text.
+    change A.s_new with w_new. change A.s_reference with w_reference. change A.s_ref with w_ref.
+    rewrite !one_of_2 in *.
+    destruct (str_eqb (removelast (tl (clean (toks_text key)))) w_define || str_eqb (removelast (tl (clean (toks_text key)))) w_mode).
+    - destruct (str_eqb (trim (toks_text v)) w_all || str_eqb (trim (toks_text v)) w_default); [reflexivity|].
+      destruct (str_eqb (trim (toks_text v)) w_components || str_eqb (trim (toks_text v)) w_ingredients); [reflexivity|].
+      destruct (str_eqb (trim (toks_text v)) w_steps); [reflexivity|].
+      destruct (str_eqb (trim (toks_text v)) w_text); discriminate.
+    - destruct (str_eqb (removelast (tl (clean (toks_text key)))) w_duplicate); [|reflexivity].
+      destruct (str_eqb (trim (toks_text v)) w_new || str_eqb (trim (toks_text v)) w_default); [reflexivity|].
+      destruct (str_eqb (trim (toks_text v)) w_reference || str_eqb (trim (toks_text v)) w_ref); [reflexivity|]. discriminate.
+  Qed.
+
+  (* the class never enters text mode *)
+  Lemma next_mode_no_text m b :
+    in_text_mode m = false -> config_ok x b = true -> in_text_mode (next_mode (A.x_modes x) m b) = false.
+  Proof.
+    unfold next_mode, config_ok. intros Hm Hok. destruct (A.x_modes x); [|exact Hm]. cbn [negb orb] in Hok.
+    destruct (block_config b) as [[d|r| |]|]; try exact Hm.
+    - unfold in_text_mode. cbn [md_define]. destruct d; try reflexivity. discriminate.
+  Qed.
+
+  Lemma timer_sim m secs cur igs cws tms inl blk cnt err t c :
     cs_kind c = CTm -> ev_proj (EvTimer t) = denote_comp c -> timer_ok unit_class x c = true ->
-    A.timer unit_class x (ST secs cur igs cws tms inl blk cnt err) (abs_tm t)
-    = (ST secs cur igs cws (tms ++ [raw_timer c]) inl blk cnt err, length tms).
+    A.timer unit_class x (ST m secs cur igs cws tms inl blk cnt err) (abs_tm t)
+    = (ST m secs cur igs cws (tms ++ [raw_timer c]) inl blk cnt err, length tms).
   Proof.
     intros Hk H Hok. unfold denote_comp in H. rewrite Hk in H. cbn [ev_proj] in H. injection H as Hn Hq.
     unfold A.timer, abs_tm. cbv zeta. cbn [E.pt_name E.pt_quantity]. aproj.
@@ -472,6 +699,7 @@ Section Run.
   Definition kcnt (igs cws : list A.component) (tms : list A.rtimer) (inl : nat) : cnt :=
     {| n_i := length igs; n_c := length cws; n_t := length tms; n_q := inl |}.
   Local Notation sitems := (step_items find_iq (A.x_inline x)).
+  Local Notation bitems m := (mitems find_iq (A.x_inline x) (in_components m)).
 
   (* the context of a step and the collector state agree *)
   Definition linked (k : ictx) (secs : list A.section) (cur : A.section) : Prop :=
@@ -484,25 +712,129 @@ Section Run.
     rewrite Hi in H. discriminate.
   Qed.
 
-  Lemma entry_plain k c : mods_inter (cs_mods c) = None -> entry k c = (false, raw_comp c).
-  Proof. unfold entry. intros ->. reflexivity. Qed.
+  Lemma entry_plain m k c : mods_inter (cs_mods c) = None -> mk_entry m k c = {| en_inter := false; en_mode := m; en_comp := raw_comp m c |}.
+  Proof. unfold mk_entry. intros ->. reflexivity. Qed.
 
-  Lemma raw_comp_rel c : A.c_rel (raw_comp c) = A.RDef [] true.
-  Proof. reflexivity. Qed.
+  Lemma plain_shape m c : entry_shape {| en_inter := false; en_mode := m; en_comp := raw_comp m c |}.
+  Proof. unfold entry_shape. cbn [en_inter en_comp]. eexists. reflexivity. Qed.
 
-  Lemma run_items k items : forall evs acc secs cur igs cws tms inl cnt err,
+  (* the three component events, one at a time: the collector adds the entry of the occurrence *)
+  Lemma step_igr m k c i acc secs cur igs cws tms inl cnt err :
+    linked k secs cur -> cs_kind c = CIgr -> ev_proj (EvIngredient i) = denote_comp c ->
+    inter_ok k c = true -> tbl_wf igs -> entry_ok ci inherit_igr igs (mk_entry m k c) = true ->
+    stepF (ST m secs cur igs cws tms inl (Some (A.BStep acc)) cnt err) (abstract_event (EvIngredient i))
+    = Done (ST m secs cur (add_entry ci inherit_igr igs (mk_entry m k c)) cws tms inl
+              (Some (A.BStep (acc ++ [A.IIngredient (length igs)]))) cnt err) /\
+    tbl_wf (add_entry ci inherit_igr igs (mk_entry m k c)).
+  Proof.
+    intros Hlk Hk He Hinter Wi Ri1.
+    pose proof He as He'. unfold denote_comp in He'. rewrite Hk in He'.
+    destruct (proj_ingredient _ _ _ _ _ _ _ He') as (i0 & Hi0 & Hmods & Hinter' & _). injection Hi0 as <-.
+    cbn [abstract_event]. fold (abs_igr i). unfold A.step at 1. aproj. unfold A.in_step.
+    pose proof (igr_new_raw m i c Hk He) as Hraw.
+    set (s0 := ST m secs cur igs cws tms inl (Some (A.BStep acc)) cnt err).
+    assert (Hdis : dis_of s0 = negb (in_components m)) by (unfold dis_of, s0; aproj; rewrite dm_components; reflexivity).
+    assert (Hsim : A.ingredient ci x s0 (abs_igr i)
+                   = Done (ST m secs cur (add_entry ci inherit_igr igs (mk_entry m k c)) cws tms inl (Some (A.BStep acc)) cnt err, length igs)
+                   /\ tbl_wf (add_entry ci inherit_igr igs (mk_entry m k c))).
+    { unfold inter_ok in Hinter. unfold mk_entry in Ri1 |- *.
+      destruct (mods_inter (cs_mods c)) as [[[rel sec] v]|] eqn:Emi.
+      - (* intermediate reference *)
+        destruct (i_inter i) as [idata|] eqn:Eii; [|discriminate]. cbn [option_map] in Hinter'. injection Hinter' as Hr Hs Hv.
+        apply andb_true_iff in Hinter as [Hinter Hsome]. apply andb_true_iff in Hinter as [Hinter Hinv].
+        apply andb_true_iff in Hinter as [_ Hmref]. apply negb_true in Hinv.
+        destruct (inter_rel k rel sec v) as [r|] eqn:Erel; [|discriminate].
+        destruct Hlk as (Hk1 & Hk2 & _).
+        assert (Hres : A.resolve_intermediate_ref s0 (abstract_inter idata) = Done (Some r)).
+        { rewrite (resolve_inter_sim _ idata k); unfold s0; aproj; [|exact Hk1|exact Hk2]. rewrite Hr, Hs, Hv, Erel. reflexivity. }
+        assert (Hpi : E.pi_inter (abs_igr i) = Some (abstract_inter idata)) by (unfold abs_igr; cbn [E.pi_inter]; rewrite Eii; reflexivity).
+        assert (Hm1 : E.m_ref (A.c_mods (igr_new (dis_of s0) (abs_igr i))) = true) by (rewrite Hdis, Hraw; exact Hmref).
+        assert (Hm2 : E.mods_intersects (A.c_mods (igr_new (dis_of s0) (abs_igr i))) A.inter_invalid = false) by (rewrite Hdis, Hraw; exact Hinv).
+        rewrite (ingredient_inter_sim ci x s0 (abs_igr i) _ r Hpi Hm1 Hm2 Hres), Hdis, Hraw. unfold s0. aproj. asetters.
+        rewrite orb_false_r. unfold add_entry, tag_of. cbn [en_inter en_comp]. split; [reflexivity|].
+        change (igs ++ [A.set_rel (raw_comp m c) r])
+          with (add_entry ci inherit_igr igs {| en_inter := true; en_mode := m; en_comp := A.set_rel (raw_comp m c) r |}).
+        apply (add_entry_wf ci inherit_igr igs _ Wi); [|reflexivity].
+        unfold entry_shape. cbn [en_inter en_comp A.set_rel A.c_rel A.c_mods]. split; [|exact Hmref].
+        unfold inter_rel in Erel. destruct (N.to_nat v); [discriminate|].
+        destruct sec, rel.
+        + destruct (ic_nsecs k <? S n)%nat; [discriminate|]. injection Erel as <-. exact I.
+        + destruct (ic_nsecs k <=? n)%nat; [discriminate|]. injection Erel as <-. exact I.
+        + destruct (nth_error _ n); [|discriminate]. injection Erel as <-. exact I.
+        + destruct (nth_error _ n); [|discriminate]. injection Erel as <-. exact I.
+      - (* definition or reference by name *)
+        assert (Hnone : E.pi_inter (abs_igr i) = None).
+        { unfold abs_igr. cbn [E.pi_inter]. destruct (i_inter i); [discriminate|reflexivity]. }
+        rewrite (ingredient_sim ci x s0 (abs_igr i) {| en_inter := false; en_mode := m; en_comp := raw_comp m c |});
+          unfold s0; aproj; cbn [en_inter en_mode en_comp]; try reflexivity; try assumption.
+        + asetters. rewrite orb_false_r. split; [reflexivity|].
+          apply add_entry_wf; [exact Wi|apply plain_shape|exact Ri1].
+        + fold s0. rewrite Hdis, Hraw. reflexivity. }
+    destruct Hsim as [Hsim W']. rewrite Hsim. cbn [obind]. asetters. auto.
+  Qed.
+
+  Lemma step_cw m k c cw acc secs cur igs cws tms inl cnt err :
+    cs_kind c = CCw -> ev_proj (EvCookware cw) = denote_comp c ->
+    inter_ok k c = true -> tbl_wf cws -> entry_ok ci inherit_cw cws (mk_entry m k c) = true ->
+    stepF (ST m secs cur igs cws tms inl (Some (A.BStep acc)) cnt err) (abstract_event (EvCookware cw))
+    = Done (ST m secs cur igs (add_entry ci inherit_cw cws (mk_entry m k c)) tms inl
+              (Some (A.BStep (acc ++ [A.ICookware (length cws)]))) cnt err) /\
+    tbl_wf (add_entry ci inherit_cw cws (mk_entry m k c)).
+  Proof.
+    intros Hk He Hinter Wc Rc1.
+    assert (Higr : is_igr c = false) by (unfold is_igr; rewrite Hk; reflexivity).
+    pose proof (inter_ok_none k c Higr Hinter) as Emi. rewrite (entry_plain m k c Emi) in *.
+    cbn [abstract_event]. fold (abs_cw cw). unfold A.step at 1. aproj. unfold A.in_step.
+    pose proof (cw_new_raw m cw c Hk He) as Hraw.
+    set (s0 := ST m secs cur igs cws tms inl (Some (A.BStep acc)) cnt err).
+    assert (Hdis : dis_of s0 = negb (in_components m)) by (unfold dis_of, s0; aproj; rewrite dm_components; reflexivity).
+    rewrite (cookware_sim ci s0 (abs_cw cw) {| en_inter := false; en_mode := m; en_comp := raw_comp m c |});
+      unfold s0; aproj; cbn [en_inter en_mode en_comp]; try reflexivity; try assumption.
+    - cbn [obind]. asetters. rewrite orb_false_r. split; [reflexivity|].
+      apply add_entry_wf; [exact Wc|apply plain_shape|exact Rc1].
+    - fold s0. rewrite Hdis, Hraw. reflexivity.
+  Qed.
+
+  Lemma step_tm m c tm acc secs cur igs cws tms inl cnt err :
+    cs_kind c = CTm -> ev_proj (EvTimer tm) = denote_comp c -> timer_ok unit_class x c = true ->
+    stepF (ST m secs cur igs cws tms inl (Some (A.BStep acc)) cnt err) (abstract_event (EvTimer tm))
+    = Done (ST m secs cur igs cws (tms ++ [raw_timer c]) inl (Some (A.BStep (acc ++ [A.ITimer (length tms)]))) cnt err).
+  Proof.
+    intros Hk He Htm. cbn [abstract_event]. fold (abs_tm tm). unfold A.step at 1. aproj. unfold A.in_step.
+    rewrite (timer_sim m secs cur igs cws tms inl (Some (A.BStep acc)) cnt err tm c Hk He Htm). asetters. reflexivity.
+  Qed.
+
+  (* a text piece of a step: cut at the inline quantities; skipped in components mode *)
+  Lemma step_text m k t tx acc secs cur igs cws tms inl cnt err :
+    text_str tx = toks_text t -> aitem_ok find_iq unit_class x m k (IText t) = true ->
+    stepF (ST m secs cur igs cws tms inl (Some (A.BStep acc)) cnt err) (abstract_event (EvText tx))
+    = Done (if in_components m then ST m secs cur igs cws tms inl (Some (A.BStep acc)) cnt err
+            else ST m secs cur igs cws tms (snd (text_items find_iq (A.x_inline x) (toks_text t) inl))
+                   (Some (A.BStep (acc ++ fst (text_items find_iq (A.x_inline x) (toks_text t) inl)))) cnt err).
+  Proof.
+    intros Htx Hit. cbn [aitem_ok] in Hit. apply andb_true_iff in Hit as [Hne Hiq].
+    cbn [abstract_event]. unfold A.step at 1. aproj. unfold A.in_step. aproj. rewrite dm_components.
+    destruct (in_components m); [reflexivity|]. rewrite orb_false_r in Hiq.
+    rewrite ParserShape.text_str_abstract, Htx.
+    unfold text_items. destruct (A.x_inline x); [|reflexivity]. cbn [negb orb] in Hiq.
+    rewrite (iq_split_some find_iq _ _ 0%nat inl) in Hiq.
+    destruct (iq_split find_iq (S (length (toks_text t))) (toks_text t) inl) as [[its1 q]|] eqn:Esp; [|discriminate].
+    rewrite (split_iq_spec find_iq _ _ _ _ _ acc Esp). reflexivity.
+  Qed.
+
+  Lemma run_items m k items : forall evs acc secs cur igs cws tms inl cnt err,
     linked k secs cur ->
     map ev_proj evs = map denote_item items ->
-    forallb (aitem_ok find_iq unit_class x k) items = true ->
+    forallb (aitem_ok find_iq unit_class x m k) items = true ->
     tbl_wf igs -> tbl_wf cws ->
-    refs_ok ci inherit_igr igs (map (entry k) (filter is_igr (item_comps items))) = true ->
-    refs_ok ci inherit_cw cws (map (entry k) (filter is_cw (item_comps items))) = true ->
-    let igs' := table ci inherit_igr igs (map (entry k) (filter is_igr (item_comps items))) in
-    let cws' := table ci inherit_cw cws (map (entry k) (filter is_cw (item_comps items))) in
-    runF (ST secs cur igs cws tms inl (Some (A.BStep acc)) cnt err) (abstract_events evs)
-    = Done (ST secs cur igs' cws' (tms ++ map raw_timer (filter is_tm (item_comps items)))
-              (n_q (snd (sitems items (kcnt igs cws tms inl))))
-              (Some (A.BStep (acc ++ fst (sitems items (kcnt igs cws tms inl))))) cnt err) /\
+    refs_ok ci inherit_igr igs (map (mk_entry m k) (filter is_igr (item_comps items))) = true ->
+    refs_ok ci inherit_cw cws (map (mk_entry m k) (filter is_cw (item_comps items))) = true ->
+    let igs' := table ci inherit_igr igs (map (mk_entry m k) (filter is_igr (item_comps items))) in
+    let cws' := table ci inherit_cw cws (map (mk_entry m k) (filter is_cw (item_comps items))) in
+    runF (ST m secs cur igs cws tms inl (Some (A.BStep acc)) cnt err) (abstract_events evs)
+    = Done (ST m secs cur igs' cws' (tms ++ map raw_timer (filter is_tm (item_comps items)))
+              (n_q (snd (bitems m items (kcnt igs cws tms inl))))
+              (Some (A.BStep (acc ++ fst (bitems m items (kcnt igs cws tms inl))))) cnt err) /\
     tbl_wf igs' /\ tbl_wf cws'.
   Proof.
     induction items as [|it items IH]; intros evs acc secs cur igs cws tms inl cnt err Hlk Hev Hok Wi Wc Ri Rc.
@@ -513,31 +845,20 @@ Section Run.
       destruct it as [t|c].
       + (* text *)
         cbn [denote_item] in He. destruct (proj_text e _ He) as (tx & -> & Htx).
-        cbn [aitem_ok] in Hit. apply andb_true_iff in Hit as [Hne Hiq]. 
-        cbn [abstract_event]. unfold A.step at 1. aproj. unfold A.in_step. aproj. cbn [A.dm_eqb].
-        rewrite ParserShape.text_str_abstract, Htx.
-        set (TI := text_items find_iq (A.x_inline x) (toks_text t) inl).
-        assert (Hstep : (if A.x_inline x
-                         then obind (A.split_iq find_iq (S (length (toks_text t))) (toks_text t) acc inl) (fun r =>
-                                let (items', n') := r in
-                                Done (A.set_block (A.set_inline (ST secs cur igs cws tms inl (Some (A.BStep acc)) cnt err) n') (Some (A.BStep items'))))
-                         else Done (A.set_block (ST secs cur igs cws tms inl (Some (A.BStep acc)) cnt err) (Some (A.BStep (acc ++ [A.IText (toks_text t)])))))
-                        = Done (ST secs cur igs cws tms (snd TI) (Some (A.BStep (acc ++ fst TI))) cnt err)).
-        { unfold TI, text_items. destruct (A.x_inline x); [|reflexivity]. cbn [negb orb] in Hiq.
-          rewrite (iq_split_some find_iq _ _ 0%nat inl) in Hiq.
-          destruct (iq_split find_iq (S (length (toks_text t))) (toks_text t) inl) as [[its1 q]|] eqn:Esp; [|discriminate].
-          rewrite (split_iq_spec find_iq _ _ _ _ _ acc Esp). reflexivity. }
-        rewrite Hstep. cbn [obind].
+        rewrite (step_text m k t tx acc secs cur igs cws tms inl cnt err Htx Hit). cbn [obind].
         cbn [item_comps flat_map app] in Ri, Rc |- *. fold (item_comps items) in Ri, Rc |- *.
-        destruct (IH evs (acc ++ fst TI) secs cur igs cws tms (snd TI) cnt err Hlk Hev Hok Wi Wc Ri Rc) as (Hrun & W1 & W2).
-        rewrite Hrun. rewrite step_items_text. cbn [fst snd kcnt n_i n_c n_t n_q]. fold TI.
-        change {| n_i := length igs; n_c := length cws; n_t := length tms; n_q := snd TI |} with (kcnt igs cws tms (snd TI)).
-        rewrite <- app_assoc. auto.
+        cbn [mitems]. destruct (in_components m) eqn:Ecm.
+        * exact (IH evs acc secs cur igs cws tms inl cnt err Hlk Hev Hok Wi Wc Ri Rc).
+        * set (TI := text_items find_iq (A.x_inline x) (toks_text t) inl).
+          destruct (IH evs (acc ++ fst TI) secs cur igs cws tms (snd TI) cnt err Hlk Hev Hok Wi Wc Ri Rc) as (Hrun & W1 & W2).
+          rewrite Hrun. cbn [fst snd kcnt n_i n_c n_t n_q]. fold TI.
+          change {| n_i := length igs; n_c := length cws; n_t := length tms; n_q := snd TI |} with (kcnt igs cws tms (snd TI)).
+          rewrite <- app_assoc. auto.
       + (* component *)
         cbn [aitem_ok] in Hit. apply andb_true_iff in Hit as [Hinter Htm].
         cbn [denote_item] in He.
         cbn [item_comps flat_map app] in Ri, Rc |- *. fold (item_comps items) in Ri, Rc |- *.
-        rewrite step_items_comp.
+        cbn [mitems].
         destruct (cs_kind c) eqn:Hk.
         * (* ingredient *)
           assert (Higr : is_igr c = true) by (unfold is_igr; rewrite Hk; reflexivity).
@@ -546,46 +867,10 @@ Section Run.
           cbn [filter] in Ri, Rc |- *. rewrite Higr in *. rewrite Hcw in *. rewrite Htm'.
           cbn [map refs_ok] in Ri. apply andb_true_iff in Ri as [Ri1 Ri].
           pose proof He as He'. unfold denote_comp in He'. rewrite Hk in He'.
-          destruct (proj_ingredient e _ _ _ _ _ _ He') as (i & -> & Hmods & Hinter' & _).
-          cbn [abstract_event]. fold (abs_igr i). unfold A.step at 1. aproj. unfold A.in_step.
-          pose proof (igr_new_raw i c Hk He) as Hraw.
-          assert (Hsim : A.ingredient ci x (ST secs cur igs cws tms inl (Some (A.BStep acc)) cnt err) (abs_igr i)
-                         = Done (ST secs cur (add_entry ci inherit_igr igs (entry k c)) cws tms inl (Some (A.BStep acc)) cnt err, length igs)
-                         /\ tbl_wf (add_entry ci inherit_igr igs (entry k c))).
-          { unfold inter_ok in Hinter. unfold entry in Ri1 |- *.
-            destruct (mods_inter (cs_mods c)) as [[[rel sec] v]|] eqn:Emi.
-            - (* intermediate reference *)
-              destruct (i_inter i) as [idata|] eqn:Eii; [|discriminate]. cbn [option_map] in Hinter'. injection Hinter' as Hr Hs Hv.
-              apply andb_true_iff in Hinter as [Hinter Hsome]. apply andb_true_iff in Hinter as [Hinter Hinv].
-              apply andb_true_iff in Hinter as [_ Hmref]. apply negb_true in Hinv.
-              destruct (inter_rel k rel sec v) as [r|] eqn:Erel; [|discriminate].
-              destruct Hlk as (Hk1 & Hk2 & _).
-              assert (Hres : A.resolve_intermediate_ref (ST secs cur igs cws tms inl (Some (A.BStep acc)) cnt err) (abstract_inter idata)
-                             = Done (Some r)).
-              { rewrite (resolve_inter_sim _ idata k); aproj; [|exact Hk1|exact Hk2]. rewrite Hr, Hs, Hv, Erel. reflexivity. }
-              assert (Hpi : E.pi_inter (abs_igr i) = Some (abstract_inter idata)) by (unfold abs_igr; cbn [E.pi_inter]; rewrite Eii; reflexivity).
-              assert (Hm1 : E.m_ref (A.c_mods (igr_new (abs_igr i))) = true) by (rewrite Hraw; exact Hmref).
-              assert (Hm2 : E.mods_intersects (A.c_mods (igr_new (abs_igr i))) A.inter_invalid = false) by (rewrite Hraw; exact Hinv).
-              rewrite (ingredient_inter_sim ci x (ST secs cur igs cws tms inl (Some (A.BStep acc)) cnt err) (abs_igr i) _ r eq_refl Hpi Hm1 Hm2 Hres). aproj. asetters.
-              rewrite orb_false_r, Hraw. unfold add_entry. cbn [fst snd]. split; [reflexivity|].
-              apply (add_entry_wf ci inherit_igr igs (true, A.set_rel (raw_comp c) r) Wi); [|reflexivity].
-              unfold entry_shape. cbn [fst snd A.set_rel A.c_rel A.c_mods]. split; [|exact Hmref].
-              unfold inter_rel in Erel. destruct (N.to_nat v); [discriminate|].
-              destruct sec, rel.
-              + destruct (ic_nsecs k <? S n)%nat; [discriminate|]. injection Erel as <-. exact I.
-              + destruct (ic_nsecs k <=? n)%nat; [discriminate|]. injection Erel as <-. exact I.
-              + destruct (nth_error _ n); [|discriminate]. injection Erel as <-. exact I.
-              + destruct (nth_error _ n); [|discriminate]. injection Erel as <-. exact I.
-            - (* definition or `&` reference by name *)
-              assert (Hnone : E.pi_inter (abs_igr i) = None).
-              { unfold abs_igr. cbn [E.pi_inter]. destruct (i_inter i); [discriminate|reflexivity]. }
-              cbn [entry_ok fst snd] in Ri1.
-              rewrite (ingredient_sim ci x (ST secs cur igs cws tms inl (Some (A.BStep acc)) cnt err) (abs_igr i) eq_refl eq_refl Hnone);
-                aproj; [|exact Wi|rewrite Hraw; exact Ri1].
-              rewrite Hraw. asetters. rewrite orb_false_r. unfold add_entry. cbn [fst snd]. split; [reflexivity|].
-              apply add_comp_wf; auto. }
-          destruct Hsim as [Hsim W']. rewrite Hsim. cbn [obind]. asetters.
-          destruct (IH evs (acc ++ [A.IIngredient (length igs)]) secs cur (add_entry ci inherit_igr igs (entry k c)) cws tms inl cnt err
+          destruct (proj_ingredient e _ _ _ _ _ _ He') as (i & -> & _).
+          destruct (step_igr m k c i acc secs cur igs cws tms inl cnt err Hlk Hk He Hinter Wi Ri1) as [Hst W'].
+          rewrite Hst. cbn [obind].
+          destruct (IH evs (acc ++ [A.IIngredient (length igs)]) secs cur (add_entry ci inherit_igr igs (mk_entry m k c)) cws tms inl cnt err
                       Hlk Hev Hok W' Wc Ri Rc) as (Hrun & W1 & W2).
           rewrite Hrun. unfold comp_item. rewrite Hk. cbn [fst snd kcnt n_i n_c n_t n_q].
           unfold kcnt. rewrite add_entry_length. cbn [table fold_left map]. rewrite <- app_assoc. auto.
@@ -594,21 +879,15 @@ Section Run.
           assert (Hcw : is_cw c = true) by (unfold is_cw; rewrite Hk; reflexivity).
           assert (Htm' : is_tm c = false) by (unfold is_tm; rewrite Hk; reflexivity).
           cbn [filter] in Ri, Rc |- *. rewrite Higr in *. rewrite Hcw in *. rewrite Htm'.
-          pose proof (inter_ok_none k c Higr Hinter) as Emi.
-          cbn [map refs_ok] in Rc |- *. rewrite (entry_plain k c Emi) in Rc |- *.
-          apply andb_true_iff in Rc as [Rc1 Rc]. cbn [entry_ok fst snd] in Rc1.
+          cbn [map refs_ok] in Rc. apply andb_true_iff in Rc as [Rc1 Rc].
           pose proof He as He'. unfold denote_comp in He'. rewrite Hk in He'.
           destruct (proj_cookware e _ _ _ _ _ He') as (cw & -> & _).
-          cbn [abstract_event]. fold (abs_cw cw). unfold A.step at 1. aproj. unfold A.in_step.
-          pose proof (cw_new_raw cw c Hk He) as Hraw.
-          rewrite (cookware_sim ci (ST secs cur igs cws tms inl (Some (A.BStep acc)) cnt err) (abs_cw cw) eq_refl eq_refl); aproj; [|exact Wc|rewrite Hraw; exact Rc1].
-          rewrite Hraw. cbn [obind]. asetters. rewrite orb_false_r.
-          assert (W' : tbl_wf (add_comp ci inherit_cw cws (raw_comp c))) by (apply add_comp_wf; auto).
-          change (add_entry ci inherit_cw cws (false, raw_comp c)) with (add_comp ci inherit_cw cws (raw_comp c)) in Rc.
-          destruct (IH evs (acc ++ [A.ICookware (length cws)]) secs cur igs (add_comp ci inherit_cw cws (raw_comp c)) tms inl cnt err
+          destruct (step_cw m k c cw acc secs cur igs cws tms inl cnt err Hk He Hinter Wc Rc1) as [Hst W'].
+          rewrite Hst. cbn [obind].
+          destruct (IH evs (acc ++ [A.ICookware (length cws)]) secs cur igs (add_entry ci inherit_cw cws (mk_entry m k c)) tms inl cnt err
                       Hlk Hev Hok Wi W' Ri Rc) as (Hrun & W1 & W2).
           rewrite Hrun. unfold comp_item. rewrite Hk. cbn [fst snd kcnt n_i n_c n_t n_q].
-          unfold kcnt. rewrite add_comp_length. cbn [table fold_left map]. rewrite <- app_assoc. auto.
+          unfold kcnt. rewrite add_entry_length. cbn [table fold_left map]. rewrite <- app_assoc. auto.
         * (* timer *)
           assert (Higr : is_igr c = false) by (unfold is_igr; rewrite Hk; reflexivity).
           assert (Hcw : is_cw c = false) by (unfold is_cw; rewrite Hk; reflexivity).
@@ -616,8 +895,7 @@ Section Run.
           cbn [filter] in Ri, Rc |- *. rewrite Higr in *. rewrite Hcw in *. rewrite Htm'.
           pose proof He as He'. unfold denote_comp in He'. rewrite Hk in He'.
           destruct (proj_timer e _ _ He') as (tm & -> & _).
-          cbn [abstract_event]. fold (abs_tm tm). unfold A.step at 1. aproj. unfold A.in_step.
-          rewrite (timer_sim secs cur igs cws tms inl (Some (A.BStep acc)) cnt err tm c Hk He Htm). asetters. cbn [obind].
+          rewrite (step_tm m c tm acc secs cur igs cws tms inl cnt err Hk He Htm). cbn [obind].
           destruct (IH evs (acc ++ [A.ITimer (length tms)]) secs cur igs cws (tms ++ [raw_timer c]) inl cnt err
                       Hlk Hev Hok Wi Wc Ri Rc) as (Hrun & W1 & W2).
           rewrite Hrun. unfold comp_item. rewrite Hk. cbn [fst snd kcnt n_i n_c n_t n_q].
@@ -625,17 +903,17 @@ Section Run.
   Qed.
 
   (* ---------------------------------------------------------------- one `>` block *)
-  Lemma run_tlines ls : forall evs acc secs cur igs cws tms inl cnt err,
+  Lemma run_tlines m ls : forall evs acc secs cur igs cws tms inl cnt err,
     map ev_proj evs = denote_tlines ls ->
-    runF (ST secs cur igs cws tms inl (Some (A.BText acc)) cnt err) (abstract_events evs)
-    = Done (ST secs cur igs cws tms inl (Some (A.BText (acc ++ tlines_text ls))) cnt err).
+    runF (ST m secs cur igs cws tms inl (Some (A.BText acc)) cnt err) (abstract_events evs)
+    = Done (ST m secs cur igs cws tms inl (Some (A.BText (acc ++ tlines_text ls))) cnt err).
   Proof.
     induction ls as [|l r IH]; intros evs acc secs cur igs cws tms inl cnt err Hev.
     - destruct evs; [|discriminate]. cbn. rewrite app_nil_r. reflexivity.
     - destruct evs as [|e evs]; [destruct r; discriminate|].
       assert (Hstep : forall tx, ev_proj e = SText tx ->
-                stepF (ST secs cur igs cws tms inl (Some (A.BText acc)) cnt err) (abstract_event e)
-                = Done (ST secs cur igs cws tms inl (Some (A.BText (acc ++ tx))) cnt err)).
+                stepF (ST m secs cur igs cws tms inl (Some (A.BText acc)) cnt err) (abstract_event e)
+                = Done (ST m secs cur igs cws tms inl (Some (A.BText (acc ++ tx))) cnt err)).
       { intros tx He. destruct (proj_text e _ He) as (t & -> & Ht). cbn [abstract_event]. unfold A.step. aproj.
         unfold A.in_text. rewrite ParserShape.text_str_abstract, Ht. reflexivity. }
       unfold abstract_events. cbn [map A.run]. fold (abstract_events evs).
@@ -671,27 +949,14 @@ Section Run.
   Lemma table_app inh tbl a b : table ci inh tbl (a ++ b) = table ci inh (table ci inh tbl a) b.
   Proof. unfold table. apply fold_left_app. Qed.
 
-  Lemma step_items_snd items : forall k,
-    n_i (snd (sitems items k)) = (n_i k + length (filter is_igr (item_comps items)))%nat /\
-    n_c (snd (sitems items k)) = (n_c k + length (filter is_cw (item_comps items)))%nat /\
-    n_t (snd (sitems items k)) = (n_t k + length (filter is_tm (item_comps items)))%nat.
+  Lemma bitems_ne m k0 items k :
+    in_components m = false ->
+    items <> [] -> forallb (aitem_ok find_iq unit_class x m k0) items = true -> fst (bitems m items k) <> [].
   Proof.
-    induction items as [|[t|c] r IH]; intro k.
-    - cbn. lia.
-    - rewrite step_items_text. cbn [snd]. destruct (IH {| n_i := n_i k; n_c := n_c k; n_t := n_t k;
-                                                          n_q := snd (text_items find_iq (A.x_inline x) (toks_text t) (n_q k)) |}) as (H1 & H2 & H3).
-      cbn [n_i n_c n_t] in H1, H2, H3. cbn [item_comps flat_map app]. fold (item_comps r). auto.
-    - rewrite step_items_comp. cbn [snd]. destruct (IH (snd (comp_item c k))) as (H1 & H2 & H3).
-      cbn [item_comps flat_map app filter]. fold (item_comps r). rewrite H1, H2, H3.
-      unfold comp_item, is_igr, is_cw, is_tm. destruct (cs_kind c); cbn [snd n_i n_c n_t length]; lia.
-  Qed.
-
-  Lemma step_items_ne k0 items k :
-    items <> [] -> forallb (aitem_ok find_iq unit_class x k0) items = true -> fst (sitems items k) <> [].
-  Proof.
+    intros Ecm. rewrite Ecm, mitems_step.
     destruct items as [|[t|c] r]; [contradiction| |]; intros _ Hok.
     - rewrite step_items_text. cbn [fst]. cbn [forallb aitem_ok] in Hok. apply andb_true_iff in Hok as [Hok _].
-      apply andb_true_iff in Hok as [Hne _]. apply negb_true in Hne.
+      apply andb_true_iff in Hok as [Hne Hq]. apply negb_true in Hne. rewrite Ecm, orb_false_r in Hq.
       assert (Hti : fst (text_items find_iq (A.x_inline x) (toks_text t) (n_q k)) <> []).
       { unfold text_items. destruct (A.x_inline x); [|discriminate].
         destruct (iq_split find_iq (S (length (toks_text t))) (toks_text t) (n_q k)) as [[its q]|] eqn:E; [|discriminate].
@@ -707,123 +972,177 @@ Section Run.
   Lemma nsteps_cons b r : nsteps (b :: r) = ((match b with BkStep _ => 1 | _ => 0 end) + nsteps r)%nat.
   Proof. unfold nsteps. cbn [filter]. destruct b; reflexivity. Qed.
 
-  Lemma linked_next k b secs name content :
+  Lemma next_mode_other modes m b : match b with BkMeta _ _ => False | _ => True end -> next_mode modes m b = m.
+  Proof. unfold next_mode. destruct b; [contradiction| | |]; intros _; destruct modes; reflexivity. Qed.
+
+  (* how a step block is read, by mode *)
+  Lemma mode_cases m : in_text_mode m = false ->
+    (in_components m = true /\ md_define m = A.DMComponents) \/
+    (in_components m = false /\ (md_define m = A.DMAll \/ md_define m = A.DMSteps)).
+  Proof. unfold in_text_mode, in_components. destruct (md_define m); auto; discriminate. Qed.
+
+  Lemma linked_next m k b secs name content :
     linked k secs {| A.sec_name := name; A.sec_content := content |} ->
     match b with
-    | BkMeta _ _ => True
+    | BkMeta _ _ => linked (next_ctx m k b) secs {| A.sec_name := name; A.sec_content := content |}
     | BkSection _ nm _ _ =>
-        linked (next_ctx k b) (secs ++ close_section name content)
+        linked (next_ctx m k b) (secs ++ close_section name content)
                {| A.sec_name := Some (clean (toks_text nm)); A.sec_content := [] |}
-    | BkStep _ => forall st, linked (next_ctx k b) secs {| A.sec_name := name; A.sec_content := content ++ [A.CStep st] |}
-    | BkText _ => forall t, linked (next_ctx k b) secs {| A.sec_name := name; A.sec_content := content ++ [A.CText t] |}
+    | BkStep _ =>
+        (in_components m = true -> linked (next_ctx m k b) secs {| A.sec_name := name; A.sec_content := content |}) /\
+        (in_components m = false -> in_text_mode m = false ->
+         forall st, linked (next_ctx m k b) secs {| A.sec_name := name; A.sec_content := content ++ [A.CStep st] |})
+    | BkText _ => forall t, linked (next_ctx m k b) secs {| A.sec_name := name; A.sec_content := content ++ [A.CText t] |}
     end.
   Proof.
-    intros (H1 & H2 & H3). cbn [A.sec_name A.sec_content] in *. destruct b; [exact I| | |].
+    intros (H1 & H2 & H3). cbn [A.sec_name A.sec_content] in *. destruct b; [repeat split; assumption| | |].
     - unfold linked, next_ctx. cbn [ic_kinds ic_nsecs ic_named A.sec_name A.sec_content map E.is_some]. repeat split.
       rewrite app_length, H1, H2, H3. unfold close_section.
       destruct name; cbn [E.is_some negb andb length]; [lia|]. destruct content; cbn [map is_nil length]; lia.
-    - intro st. unfold linked, next_ctx. cbn [ic_kinds ic_nsecs ic_named A.sec_name A.sec_content]. rewrite map_app, H1. auto.
+    - split.
+      + unfold in_components, next_ctx. destruct (md_define m); try discriminate. intros _. repeat split; assumption.
+      + unfold in_components, in_text_mode, next_ctx. destruct (md_define m); try discriminate; intros _ _ st;
+          unfold linked; cbn [ic_kinds ic_nsecs ic_named A.sec_name A.sec_content]; rewrite map_app, H1; auto.
     - intro t. unfold linked, next_ctx. cbn [ic_kinds ic_nsecs ic_named A.sec_name A.sec_content]. rewrite map_app, H1. auto.
   Qed.
 
-  Lemma run_blocks d : forall k evs secs name content igs cws tms inl cnt err,
+  Local Notation modes := (A.x_modes x).
+
+  Lemma run_blocks d : forall m k evs secs name content igs cws tms inl cnt err,
+    in_text_mode m = false ->
     linked k secs {| A.sec_name := name; A.sec_content := content |} ->
     map ev_proj evs = doc_events d ->
-    Forall block_ne d -> ablocks_ok find_iq unit_class x d k = true ->
+    Forall block_ne d -> ablocks_ok find_iq unit_class x d m k = true ->
     tbl_wf igs -> tbl_wf cws ->
-    refs_ok ci inherit_igr igs (doc_entries is_igr d k) = true ->
-    refs_ok ci inherit_cw cws (doc_entries is_cw d k) = true ->
+    refs_ok ci inherit_igr igs (doc_entries modes is_igr d m k) = true ->
+    refs_ok ci inherit_cw cws (doc_entries modes is_cw d m k) = true ->
     (1 <= cnt)%nat -> N.of_nat (cnt + nsteps d) < 4294967296 ->
-    exists secs' cur' cnt',
-      runF (ST secs {| A.sec_name := name; A.sec_content := content |} igs cws tms inl None cnt err) (abstract_events evs)
-      = Done (ST secs' cur' (table ci inherit_igr igs (doc_entries is_igr d k))
-                (table ci inherit_cw cws (doc_entries is_cw d k))
-                (tms ++ map raw_timer (filter is_tm (doc_comps d)))
-                (inline_count find_iq (A.x_inline x) d (kcnt igs cws tms inl)) None cnt' err) /\
-      pushed secs' cur' = secs ++ sections_of find_iq (A.x_inline x) d name content cnt (kcnt igs cws tms inl).
+    exists m' secs' cur' cnt',
+      runF (ST m secs {| A.sec_name := name; A.sec_content := content |} igs cws tms inl None cnt err) (abstract_events evs)
+      = Done (ST m' secs' cur' (table ci inherit_igr igs (doc_entries modes is_igr d m k))
+                (table ci inherit_cw cws (doc_entries modes is_cw d m k))
+                (tms ++ map raw_timer (filter is_tm (live_comps modes d m)))
+                (inline_count find_iq (A.x_inline x) modes d m (kcnt igs cws tms inl)) None cnt' err) /\
+      pushed secs' cur' = secs ++ sections_of find_iq (A.x_inline x) modes d m name content cnt (kcnt igs cws tms inl).
   Proof.
-    induction d as [|b r IH]; intros k evs secs name content igs cws tms inl cnt err Hlk Hev Hne Hok Wi Wc Ri Rc Hc1 Hcb.
-    - destruct evs; [|discriminate]. cbn [doc_entries doc_comps flat_map filter map table fold_left inline_count kcnt n_q]. rewrite app_nil_r.
-      eexists _, _, _. split; [reflexivity|]. apply pushed_close.
+    induction d as [|b r IH]; intros m k evs secs name content igs cws tms inl cnt err Hm Hlk Hev Hne Hok Wi Wc Ri Rc Hc1 Hcb.
+    - destruct evs; [|discriminate]. cbn [doc_entries live_comps filter map table fold_left inline_count kcnt n_q]. rewrite app_nil_r.
+      eexists _, _, _, _. split; [reflexivity|]. apply pushed_close.
     - unfold doc_events in Hev. cbn [map concat] in Hev. fold (doc_events r) in Hev.
       apply map_eq_app in Hev as (e1 & e2 & -> & He1 & He2).
       inversion Hne as [|? ? Hb Hne']; subst. cbn [ablocks_ok] in Hok. apply andb_true_iff in Hok as [Hbok Hok].
       unfold abstract_events. rewrite map_app. fold (abstract_events e1) (abstract_events e2). rewrite run_app.
-      cbn [doc_comps flat_map] in |- *. fold (doc_comps r) in |- *.
-      cbn [doc_entries] in Ri, Rc |- *.
-      rewrite nsteps_cons in Hcb. pose proof (linked_next k b secs name content Hlk) as Hlk'.
+      cbn [live_comps doc_entries] in Ri, Rc |- *. rewrite Hm in Ri, Rc |- *.
+      rewrite nsteps_cons in Hcb. pose proof (linked_next m k b secs name content Hlk) as Hlk'.
       destruct b as [key v | n1 nm n2 trail | items | ls]; cbn [denote_block block_comps app filter map] in He1, Ri, Rc |- *.
-      + (* metadata: not a mode switch, the state is unchanged *)
+      + (* `>>` entry: a mode switch or nothing *)
         destruct e1 as [|e [|? ?]]; try discriminate. cbn [map] in He1. injection He1 as He.
-        destruct (proj_meta e _ _ He) as (tk & tv & -> & Hk & _).
+        destruct (proj_meta e _ _ He) as (tk & tv & -> & Hk & Hv).
         cbn [abstract_events map abstract_event A.run]. unfold A.step at 1. aproj.
-        assert (Hm : A.metadata x (ST secs {| A.sec_name := name; A.sec_content := content |} igs cws tms inl None cnt err)
-                       (abstract_text tk) (abstract_text tv)
-                     = ST secs {| A.sec_name := name; A.sec_content := content |} igs cws tms inl None cnt err).
-        { unfold A.metadata. rewrite trimmed_abstract, Hk. cbn [ablock_ok] in Hbok. apply negb_true in Hbok.
-          unfold bracketed in Hbok. destruct (A.x_modes x); [|reflexivity]. cbn [andb] in Hbok |- *.
-          destruct (clean (toks_text key)) as [|c0 k0]; [reflexivity|]. destruct (rev (c0 :: k0)) as [|e0 r0]; [rewrite andb_false_r; reflexivity|].
-          rewrite Hbok. reflexivity. }
-        rewrite Hm. cbn [obind]. cbn [sections_of inline_count].
-        apply (IH k e2 secs name content igs cws tms inl cnt err Hlk He2 Hne' Hok Wi Wc Ri Rc Hc1). cbn [Nat.add] in Hcb. exact Hcb.
+        cbn [ablock_ok] in Hbok.
+        rewrite (metadata_sim m secs _ igs cws tms inl None cnt err tk tv key v Hk Hv Hbok). cbn [obind].
+        cbn [sections_of inline_count].
+        apply (IH _ k e2 secs name content igs cws tms inl cnt err (next_mode_no_text m _ Hm Hbok) Hlk' He2 Hne' Hok Wi Wc Ri Rc Hc1).
+        cbn [Nat.add] in Hcb. exact Hcb.
       + (* section line *)
+        rewrite (next_mode_other modes m (BkSection n1 nm n2 trail) I) in *.
         destruct e1 as [|e [|? ?]]; try discriminate. cbn [map] in He1. injection He1 as He.
         destruct (proj_section e _ He) as (tn & -> & Hn).
         cbn [abstract_events map abstract_event A.run option_map]. unfold A.step at 1. aproj. asetters. cbn [obind option_map].
         rewrite trimmed_abstract, Hn.
-        change (A.pushed_sections (ST secs {| A.sec_name := name; A.sec_content := content |} igs cws tms inl None cnt err))
+        change (A.pushed_sections (ST m secs {| A.sec_name := name; A.sec_content := content |} igs cws tms inl None cnt err))
           with (pushed secs {| A.sec_name := name; A.sec_content := content |}).
         rewrite pushed_close.
-        destruct (IH _ e2 (secs ++ close_section name content) (Some (clean (toks_text nm))) [] igs cws tms inl 1%nat err
-                    Hlk' He2 Hne' Hok Wi Wc Ri Rc (le_n 1)) as (secs' & cur' & cnt' & Hrun & Hp).
+        destruct (IH m _ e2 (secs ++ close_section name content) (Some (clean (toks_text nm))) [] igs cws tms inl 1%nat err
+                    Hm Hlk' He2 Hne' Hok Wi Wc Ri Rc (le_n 1)) as (m' & secs' & cur' & cnt' & Hrun & Hp).
         { cbn [Nat.add] in Hcb. lia. }
-        exists secs', cur', cnt'. split; [exact Hrun|]. rewrite Hp. cbn [sections_of]. rewrite app_assoc. reflexivity.
+        exists m', secs', cur', cnt'. split.
+        * rewrite Hrun. cbn [inline_count]. rewrite (next_mode_other modes m (BkSection n1 nm n2 trail) I). reflexivity.
+        * rewrite Hp. cbn [sections_of].
+          rewrite (next_mode_other modes m (BkSection n1 nm n2 trail) I). rewrite app_assoc. reflexivity.
       + (* step block *)
+        rewrite (next_mode_other modes m (BkStep items) I) in *.
         cbn [block_ne] in Hb. cbn [ablock_ok] in Hbok.
         destruct e1 as [|es e1]; [discriminate|]. cbn [map] in He1. injection He1 as Hes He1.
         apply map_eq_app in He1 as (em & ee & -> & Hem & Hee).
         destruct ee as [|ee [|? ?]]; try discriminate. cbn [map] in Hee. injection Hee as Hee.
         rewrite (proj_start es _ Hes), (proj_end ee _ Hee).
         rewrite refs_ok_app in Ri, Rc. apply andb_true_iff in Ri as [Ri1 Ri2]. apply andb_true_iff in Rc as [Rc1 Rc2].
-        cbn [abstract_events map abstract_event A.run abstract_kind]. unfold A.step at 1. aproj. asetters. cbn [A.dm_eqb obind].
+        cbn [abstract_events map abstract_event A.run abstract_kind]. unfold A.step at 1. aproj. asetters. rewrite dm_text, Hm. cbn [obind].
         rewrite map_app. fold (abstract_events em). rewrite run_app.
-        destruct (run_items k items em [] secs {| A.sec_name := name; A.sec_content := content |} igs cws tms inl cnt err
+        destruct (run_items m k items em [] secs {| A.sec_name := name; A.sec_content := content |} igs cws tms inl cnt err
                     Hlk Hem Hbok Wi Wc Ri1 Rc1) as (Hrun & Wi' & Wc').
         cbv zeta in Hrun, Wi', Wc'. rewrite Hrun. cbn [obind app map A.run abstract_event abstract_kind].
         unfold A.step at 1. aproj. unfold A.end_block. aproj. cbn [E.block_kind_eqb]. unfold A.finish_block, A.skipped.
-        cbn [A.cfgF A.skip_empty_step A.st_items A.is_step A.is_text A.dm_eqb andb negb orb]. aproj.
-        rewrite (is_nil_ne _ (step_items_ne k items (kcnt igs cws tms inl) Hb Hbok)). cbn [A.dm_eqb negb andb orb].
-        destruct (N.leb_spec 4294967295 (N.of_nat cnt)) as [Hov|_]; [lia|]. asetters. cbn [obind A.sec_name A.sec_content].
-        set (igs' := table ci inherit_igr igs (map (entry k) (filter is_igr (item_comps items)))) in *.
-        set (cws' := table ci inherit_cw cws (map (entry k) (filter is_cw (item_comps items)))) in *.
+        cbn [A.cfgF A.skip_empty_step A.st_items A.is_step A.is_text andb negb orb]. aproj. rewrite dm_components.
+        set (igs' := table ci inherit_igr igs (map (mk_entry m k) (filter is_igr (item_comps items)))) in *.
+        set (cws' := table ci inherit_cw cws (map (mk_entry m k) (filter is_cw (item_comps items)))) in *.
         set (tms' := tms ++ map raw_timer (filter is_tm (item_comps items))).
-        set (K' := snd (sitems items (kcnt igs cws tms inl))) in *.
+        set (K' := snd (bitems m items (kcnt igs cws tms inl))) in *.
+        set (IT := fst (bitems m items (kcnt igs cws tms inl))) in *.
         assert (EK : K' = kcnt igs' cws' tms' (n_q K')).
-        { destruct (step_items_snd items (kcnt igs cws tms inl)) as (H1 & H2 & H3). fold K' in H1, H2, H3.
+        { destruct (mitems_counts find_iq (A.x_inline x) (in_components m) items (kcnt igs cws tms inl)) as (H1 & H2 & H3 & _).
+          fold K' in H1, H2, H3.
           unfold kcnt, igs', cws', tms'. rewrite !table_length, app_length, !map_length. cbn [kcnt n_i n_c n_t] in H1, H2, H3.
           rewrite <- H1, <- H2, <- H3. destruct K'; reflexivity. }
-        destruct (IH _ e2 secs name (content ++ [A.CStep {| A.st_items := fst (sitems items (kcnt igs cws tms inl)); A.st_number := cnt |}])
-                    igs' cws' tms' (n_q K') (S cnt) err (Hlk' _) He2 Hne' Hok Wi' Wc' Ri2 Rc2) as (secs' & cur' & cnt' & Hrun2 & Hp); [lia|lia|].
-        exists secs', cur', cnt'. split.
-        * rewrite Hrun2. cbn [inline_count]. fold K'. rewrite <- EK.
-          rewrite !filter_app, !map_app, !table_app. unfold tms'. rewrite <- app_assoc. reflexivity.
-        * rewrite Hp. cbn [sections_of]. rewrite (surjective_pairing (sitems items (kcnt igs cws tms inl))). fold K'.
-          rewrite <- EK. reflexivity.
+        destruct Hlk' as [Hlkc Hlkn].
+        destruct (mode_cases m Hm) as [[Ecm Edm]|[Ecm Edm]]; rewrite Ecm.
+        * (* components mode: the block is a list of components, no step *)
+          cbn [negb orb]. rewrite andb_false_r. asetters. cbn [obind].
+          assert (Eq : n_q K' = inl).
+          { destruct (mitems_counts find_iq (A.x_inline x) (in_components m) items (kcnt igs cws tms inl)) as (_ & _ & _ & H4).
+            fold K' in H4. rewrite (H4 Ecm). reflexivity. }
+          rewrite Eq in *.
+          assert (EC : comps_cnt items (kcnt igs cws tms inl) = kcnt igs' cws' tms' inl).
+          { rewrite <- EK. unfold K'. rewrite Ecm. symmetry. apply mitems_comps. }
+          destruct (IH m _ e2 secs name content igs' cws' tms' inl cnt err Hm (Hlkc Ecm) He2 Hne' Hok Wi' Wc' Ri2 Rc2 Hc1)
+            as (m' & secs' & cur' & cnt' & Hrun2 & Hp); [lia|].
+          exists m', secs', cur', cnt'. split.
+          -- rewrite Hrun2. cbn [inline_count]. rewrite (next_mode_other modes m (BkStep items) I), Edm, EC.
+             rewrite !filter_app, !map_app, !table_app. unfold tms'. rewrite <- app_assoc. reflexivity.
+          -- rewrite Hp. cbn [sections_of]. rewrite (next_mode_other modes m (BkStep items) I), Edm, EC. reflexivity.
+        * (* all / steps mode: a step of the section *)
+          cbn [negb orb andb].
+          rewrite (is_nil_ne IT (bitems_ne m k items (kcnt igs cws tms inl) Ecm Hb Hbok)). cbn [negb andb].
+          destruct (N.leb_spec 4294967295 (N.of_nat cnt)) as [Hov|_]; [lia|]. asetters. cbn [obind A.sec_name A.sec_content].
+          assert (ES : bitems m items (kcnt igs cws tms inl) = step_items find_iq (A.x_inline x) items (kcnt igs cws tms inl))
+            by (rewrite Ecm; apply mitems_step).
+          destruct (IH m _ e2 secs name (content ++ [A.CStep {| A.st_items := IT; A.st_number := cnt |}])
+                      igs' cws' tms' (n_q K') (S cnt) err Hm (Hlkn Ecm Hm _) He2 Hne' Hok Wi' Wc' Ri2 Rc2)
+            as (m' & secs' & cur' & cnt' & Hrun2 & Hp); [lia|lia|].
+          exists m', secs', cur', cnt'. split.
+          -- rewrite Hrun2. cbn [inline_count]. rewrite (next_mode_other modes m (BkStep items) I).
+             assert (EI : inline_count find_iq (A.x_inline x) modes r m (kcnt igs' cws' tms' (n_q K'))
+                          = match md_define m with
+                            | A.DMComponents => inline_count find_iq (A.x_inline x) modes r m (comps_cnt items (kcnt igs cws tms inl))
+                            | A.DMText => inline_count find_iq (A.x_inline x) modes r m (kcnt igs cws tms inl)
+                            | _ => inline_count find_iq (A.x_inline x) modes r m (snd (step_items find_iq (A.x_inline x) items (kcnt igs cws tms inl)))
+                            end).
+             { rewrite <- EK. unfold K'. rewrite ES. destruct Edm as [-> | ->]; reflexivity. }
+             rewrite <- EI.
+             rewrite !filter_app, !map_app, !table_app. unfold tms'. rewrite <- app_assoc. reflexivity.
+          -- rewrite Hp. cbn [sections_of]. rewrite (next_mode_other modes m (BkStep items) I).
+             rewrite <- EK. unfold K', IT. rewrite ES.
+             destruct (step_items find_iq (A.x_inline x) items (kcnt igs cws tms inl)) as [its k']. cbn [fst snd].
+             destruct Edm as [-> | ->]; reflexivity.
       + (* text block *)
+        rewrite (next_mode_other modes m (BkText ls) I) in *.
         cbn [block_ne] in Hb.
         destruct e1 as [|es e1]; [discriminate|]. cbn [map] in He1. injection He1 as Hes He1.
         apply map_eq_app in He1 as (em & ee & -> & Hem & Hee).
         destruct ee as [|ee [|? ?]]; try discriminate. cbn [map] in Hee. injection Hee as Hee.
         rewrite (proj_start es _ Hes), (proj_end ee _ Hee).
-        cbn [abstract_events map abstract_event A.run abstract_kind]. unfold A.step at 1. aproj. asetters. cbn [A.dm_eqb obind].
+        cbn [abstract_events map abstract_event A.run abstract_kind]. unfold A.step at 1. aproj. asetters. rewrite dm_text, Hm. cbn [obind].
         rewrite map_app. fold (abstract_events em). rewrite run_app.
-        rewrite (run_tlines ls em [] secs _ igs cws tms inl cnt err Hem). cbn [obind app map A.run abstract_event abstract_kind].
+        rewrite (run_tlines m ls em [] secs _ igs cws tms inl cnt err Hem). cbn [obind app map A.run abstract_event abstract_kind].
         unfold A.step at 1. aproj. unfold A.end_block. aproj. cbn [E.block_kind_eqb orb]. unfold A.finish_block, A.skipped.
-        cbn [A.cfgF A.skip_empty_text A.is_step A.is_text A.dm_eqb andb negb orb]. aproj.
-        rewrite (is_nil_ne _ Hb). cbn [A.dm_eqb negb andb orb]. asetters. cbn [obind A.sec_name A.sec_content].
-        destruct (IH _ e2 secs name (content ++ [A.CText (tlines_text ls)]) igs cws tms inl cnt err (Hlk' _) He2 Hne' Hok Wi Wc Ri Rc Hc1)
-          as (secs' & cur' & cnt' & Hrun2 & Hp); [cbn [Nat.add] in Hcb; exact Hcb|].
-        exists secs', cur', cnt'. split; [exact Hrun2|]. rewrite Hp. reflexivity.
+        cbn [A.cfgF A.skip_empty_text A.is_step A.is_text andb negb orb]. aproj.
+        rewrite (is_nil_ne _ Hb). rewrite orb_true_r. cbn [negb andb]. asetters. cbn [obind A.sec_name A.sec_content].
+        destruct (IH m _ e2 secs name (content ++ [A.CText (tlines_text ls)]) igs cws tms inl cnt err Hm (Hlk' _) He2 Hne' Hok Wi Wc Ri Rc Hc1)
+          as (m' & secs' & cur' & cnt' & Hrun2 & Hp); [cbn [Nat.add] in Hcb; exact Hcb|].
+        exists m', secs', cur', cnt'. split.
+        * rewrite Hrun2. cbn [inline_count]. rewrite (next_mode_other modes m (BkText ls) I). reflexivity.
+        * rewrite Hp. cbn [sections_of]. rewrite (next_mode_other modes m (BkText ls) I). reflexivity.
   Qed.
 End Run.
 
@@ -844,14 +1163,16 @@ Lemma analyse_from ci yaml_ok find_iq unit_class input x cfg d evs err :
   obind (A.run ci yaml_ok find_iq unit_class input x A.cfgF
            (A.Build_astate [] {| A.sec_name := None; A.sec_content := [] |} [] [] [] 0%nat A.DMAll A.DupNew None 1%nat err false)
            (abstract_events evs)) (fun s => Done (A.output s, A.is_valid s))
-  = Done (Some (denote ci find_iq (A.x_inline x) d), negb err).
+  = Done (Some (denote ci find_iq (A.x_inline x) (A.x_modes x) d), negb err).
 Proof.
   intros Hev Hbl Hok. unfold adoc_ok in Hok. apply andb_true_iff in Hok as [Hok Hn]. apply andb_true_iff in Hok as [Hok Rc].
   apply andb_true_iff in Hok as [Hok Ri]. apply N.ltb_lt in Hn.
   assert (Hne : Forall block_ne d) by (eapply Forall_impl; [|exact Hbl]; intros b; apply block_ok_ne).
   assert (Hlk : linked ictx0 [] {| A.sec_name := None; A.sec_content := [] |}) by (repeat split).
-  destruct (run_blocks ci yaml_ok find_iq unit_class input x d ictx0 evs [] None [] [] [] [] 0%nat 1%nat err
-              Hlk Hev Hne Hok (Forall_nil _) (Forall_nil _) Ri Rc (le_n 1)) as (secs' & cur' & cnt' & Hrun & Hp); [lia|].
+  destruct (run_blocks ci yaml_ok find_iq unit_class input x d mode0 ictx0 evs [] None [] [] [] [] 0%nat 1%nat err
+              eq_refl Hlk Hev Hne Hok (Forall_nil _) (Forall_nil _) Ri Rc (le_n 1)) as (m' & secs' & cur' & cnt' & Hrun & Hp); [lia|].
+  change (A.Build_astate [] {| A.sec_name := None; A.sec_content := [] |} [] [] [] 0%nat A.DMAll A.DupNew None 1%nat err false)
+    with (A.Build_astate [] {| A.sec_name := None; A.sec_content := [] |} [] [] [] 0%nat (md_define mode0) (dup_of (md_dupref mode0)) None 1%nat err false).
   rewrite Hrun. cbn [obind]. unfold A.output, A.is_valid. aproj. cbn [negb andb]. do 3 f_equal.
   unfold denote. f_equal. exact Hp.
 Qed.
@@ -859,7 +1180,8 @@ Qed.
 Theorem analyse_denote ci yaml_ok find_iq unit_class input x cfg d evs :
   map ev_proj evs = doc_events d -> Forall (fun b => block_ok cfg b = true) d ->
   adoc_ok ci find_iq unit_class x d = true ->
-  A.analyse ci yaml_ok find_iq unit_class input x A.cfgF (abstract_events evs) = Done (Some (denote ci find_iq (A.x_inline x) d), true).
+  A.analyse ci yaml_ok find_iq unit_class input x A.cfgF (abstract_events evs)
+  = Done (Some (denote ci find_iq (A.x_inline x) (A.x_modes x) d), true).
 Proof.
   intros Hev Hbl Hok. exact (analyse_from ci yaml_ok find_iq unit_class input x cfg d evs false Hev Hbl Hok).
 Qed.
@@ -868,7 +1190,8 @@ Qed.
 Theorem analyse_denote_fm ci yaml_ok find_iq unit_class input x cfg y d evs :
   map ev_proj evs = fm_doc_events y d -> Forall (fun b => block_ok cfg b = true) d ->
   adoc_ok ci find_iq unit_class x d = true ->
-  A.analyse ci yaml_ok find_iq unit_class input x A.cfgF (abstract_events evs) = Done (Some (denote ci find_iq (A.x_inline x) d), yaml_ok y).
+  A.analyse ci yaml_ok find_iq unit_class input x A.cfgF (abstract_events evs)
+  = Done (Some (denote ci find_iq (A.x_inline x) (A.x_modes x) d), yaml_ok y).
 Proof.
   intros Hev Hbl Hok. unfold fm_doc_events in Hev. destruct evs as [|e evs]; [discriminate|]. cbn [map] in Hev.
   injection Hev as He Hev. destruct e; try discriminate. cbn [ev_proj] in He. injection He as He.
@@ -894,7 +1217,8 @@ Qed.
 (* print, then the whole pipeline of CooklangParser::parse (ParseTotal.parse_model = analyse . bridge . events) *)
 Theorem parse_print U cfg ci yaml_ok find_iq unit_class x d tp :
   doc_ok U cfg d tp = true -> adoc_ok ci find_iq unit_class x d = true ->
-  ParseTotal.parse_model U cfg ci yaml_ok find_iq unit_class x (print_doc d tp) = Done (Some (denote ci find_iq (A.x_inline x) d), true).
+  ParseTotal.parse_model U cfg ci yaml_ok find_iq unit_class x (print_doc d tp)
+  = Done (Some (denote ci find_iq (A.x_inline x) (A.x_modes x) d), true).
 Proof.
   intros Hd Ha. destruct (events_print_doc U cfg d tp Hd) as (evs & Hev & Hp).
   unfold ParseTotal.parse_model. rewrite Hev. cbn [obind].
@@ -905,7 +1229,8 @@ Qed.
 
 Theorem parse_print_fm U cfg ci yaml_ok find_iq unit_class x y ft d tp :
   fm_doc_ok U cfg y ft d tp = true -> adoc_ok ci find_iq unit_class x d = true ->
-  ParseTotal.parse_model U cfg ci yaml_ok find_iq unit_class x (print_fm_doc y ft d tp) = Done (Some (denote ci find_iq (A.x_inline x) d), yaml_ok y).
+  ParseTotal.parse_model U cfg ci yaml_ok find_iq unit_class x (print_fm_doc y ft d tp)
+  = Done (Some (denote ci find_iq (A.x_inline x) (A.x_modes x) d), yaml_ok y).
 Proof.
   intros Hd Ha. destruct (events_print_fm_doc U cfg y ft d tp Hd) as (evs & Hev & Hp).
   unfold ParseTotal.parse_model. rewrite Hev. cbn [obind].
@@ -1051,6 +1376,89 @@ Proof.
   change (fold_left (MetaMap.mm_step Y ystr yeqb yaml modes) evs ?s0) with (MetaMap.mm_run Y ystr yeqb yaml modes s0 evs).
   rewrite (mm_run_quiet Y ystr yeqb yaml modes evs); [|reflexivity|rewrite Hev; exact H1|rewrite Hev; exact H3].
   rewrite Hev, H2, Hme. reflexivity.
+Qed.
+
+(* ---------------------------------------------------------------- the metadata map, mode switches included *)
+Definition spec_kept (modes : bool) (specs : list ev_spec) : list (str * str) :=
+  flat_map (fun e => match e with SMeta k v => if mode_key modes k then [] else [(k, v)] | _ => [] end) specs.
+
+Lemma spec_kept_app modes a b : spec_kept modes (a ++ b) = spec_kept modes a ++ spec_kept modes b.
+Proof. unfold spec_kept. apply flat_map_app. Qed.
+
+Section MetaModes.
+  Variable Y : Type.
+  Variable ystr : str -> Y.
+  Variable yeqb : Y -> Y -> bool.
+  Variable yaml : str -> option (list (Y * Y)).
+  Variable modes : bool.
+
+  Lemma mm_run_modes evs : forall s,
+    MetaMap.mm_halted Y s = false -> MetaMap.mm_old Y s = true ->
+    forallb spec_quiet (map ev_proj evs) = true ->
+    MetaMap.mm_run Y ystr yeqb yaml modes s evs
+    = MetaMap.set_map Y s (fold_left (ins Y ystr yeqb) (spec_kept modes (map ev_proj evs)) (MetaMap.mm_map Y s)).
+  Proof.
+    induction evs as [|e r IH]; intros s Hh Ho Hq.
+    - destruct s; reflexivity.
+    - cbn [map forallb] in Hq. apply andb_true_iff in Hq as [Hqe Hq].
+      unfold MetaMap.mm_run. cbn [fold_left].
+      assert (Hs : MetaMap.mm_step Y ystr yeqb yaml modes s e
+                   = MetaMap.set_map Y s (fold_left (ins Y ystr yeqb) (spec_kept modes [ev_proj e]) (MetaMap.mm_map Y s))).
+      { unfold MetaMap.mm_step. rewrite Hh. destruct e; try discriminate; try (destruct s; reflexivity).
+        cbn [ev_proj spec_kept flat_map app]. unfold MetaMap.mm_metadata, mode_key. rewrite bracketed_eq, Ho. cbv zeta.
+        change MetaMap.cs_define with w_define. change MetaMap.cs_mode with w_mode. change MetaMap.cs_duplicate with w_duplicate.
+        destruct (modes && bracketed (text_trimmed key)); cbn [andb]; [|reflexivity].
+        destruct (str_eqb _ w_define || str_eqb _ w_mode || str_eqb _ w_duplicate); [destruct s; reflexivity|reflexivity]. }
+      rewrite Hs. change (fold_left (MetaMap.mm_step Y ystr yeqb yaml modes) r ?s0) with (MetaMap.mm_run Y ystr yeqb yaml modes s0 r).
+      rewrite IH; [|unfold MetaMap.set_map; cbn [MetaMap.mm_halted]; exact Hh|unfold MetaMap.set_map; cbn [MetaMap.mm_old]; exact Ho|exact Hq].
+      change (spec_kept modes (map ev_proj (e :: r))) with (spec_kept modes ([ev_proj e] ++ map ev_proj r)).
+      rewrite spec_kept_app, fold_left_app.
+      destruct s; reflexivity.
+  Qed.
+End MetaModes.
+
+Lemma quiet_no_meta specs : spec_meta specs = [] -> forall modes, spec_kept modes specs = [].
+Proof.
+  induction specs as [|e r IH]; intros H modes; [reflexivity|].
+  change (e :: r) with ([e] ++ r) in H |- *. rewrite spec_meta_app in H. rewrite spec_kept_app.
+  apply app_eq_nil in H as [H1 H2]. rewrite (IH H2). destruct e; try reflexivity. discriminate H1.
+Qed.
+
+Lemma doc_events_kept modes d : spec_kept modes (doc_events d) = kept_entries modes d.
+Proof.
+  induction d as [|b r IH]; [reflexivity|].
+  unfold doc_events. cbn [map concat]. fold (doc_events r). rewrite spec_kept_app, IH.
+  cbn [kept_entries flat_map]. fold (kept_entries modes r). f_equal.
+  destruct b as [k v|n1 nm n2 tr|items|ls]; cbn [denote_block].
+  - cbn [spec_kept flat_map]. rewrite app_nil_r. reflexivity.
+  - reflexivity.
+  - apply quiet_no_meta. destruct (items_quiet items) as (_ & H2 & _).
+    change (SStart true :: map denote_item items ++ [SEnd true]) with ([SStart true] ++ map denote_item items ++ [SEnd true]).
+    rewrite !spec_meta_app, H2. reflexivity.
+  - apply quiet_no_meta. destruct (tlines_quiet ls) as (_ & H2 & _).
+    change (SStart false :: denote_tlines ls ++ [SEnd false]) with ([SStart false] ++ denote_tlines ls ++ [SEnd false]).
+    rewrite !spec_meta_app, H2. reflexivity.
+Qed.
+
+(* the metadata map of a printed document, mode switches included: the `>>` entries that are not mode switches,
+   inserted in order (an unknown `[..]` key is an entry: the code warns and, without a front matter, keeps it) *)
+Theorem metadata_denote_modes Y ystr yeqb yaml modes d evs :
+  map ev_proj evs = doc_events d ->
+  MetaMap.metadata_of Y ystr yeqb yaml modes evs = Some (fold_left (ins Y ystr yeqb) (kept_entries modes d) []).
+Proof.
+  intros Hev.
+  assert (Hp : meta_plain false d = true).
+  { unfold meta_plain. apply forallb_forall. intros b _. destruct b; reflexivity. }
+  destruct (doc_events_meta false d Hp) as (H1 & _ & _).
+  unfold MetaMap.metadata_of. rewrite (mm_run_modes Y ystr yeqb yaml modes evs); [|reflexivity|reflexivity|rewrite Hev; exact H1].
+  rewrite Hev, doc_events_kept. reflexivity.
+Qed.
+
+Lemma kept_entries_plain modes d : meta_plain modes d = true -> kept_entries modes d = meta_entries d.
+Proof.
+  induction d as [|b r IH]; intro H; [reflexivity|]. cbn [meta_plain forallb] in H. apply andb_true_iff in H as [Hb Hr].
+  cbn [kept_entries meta_entries flat_map]. fold (kept_entries modes r) (meta_entries r). rewrite (IH Hr). f_equal.
+  destruct b; try reflexivity. unfold mode_key. apply negb_true in Hb. rewrite Hb. reflexivity.
 Qed.
 
 (* ---------------------------------------------------------------- what [find_def] finds *)
